@@ -69,14 +69,14 @@ def patched : Params := { current with recheckAfterDial := true }
     `rtA1`/`rtA2`: `Recv` failed (retryable: io.EOF, io.ErrClosedPipe / fatal: anything else), about to
     `cancel`; `rtB` about to swap `tx`; `rtC` about to close the stream; `rEnd`: returned, `rx` closed. -/
 inductive RP where
-  | r0 | r1 | r2c | r2s | rtA1 | rtA2 | rtB | rtC | rEnd
+  | r0 | r1 | r2c | r2s | rtA1 | rtA2 | rtB | rEnd
   deriving Repr, DecidableEq, Inhabited
 
 /-- writeloop. `wc` loop condition, `ws` in the select, `w1x` in `Send` with a message of colour x,
     `w2xy` `Send` failed with class y (r retryable / f fatal), before `req.err <- err`,
     `wtA1`/`wtA2`, `wtB`, `wtC` terminate, `wEnd` returned. -/
 inductive WP where
-  | wc | ws | w1c | w1s | w2cr | w2cf | w2sr | w2sf | wtA1 | wtA2 | wtB | wtC | wEnd
+  | wc | ws | w1c | w1s | w2cr | w2cf | w2sr | w2sf | wtA1 | wtA2 | wtB | wEnd
   deriving Repr, DecidableEq, Inhabited
 
 /-- the caller holding the mutex (`doRountrip` → `reconnect` / `roundtrip` → `send` / `recv`). -/
@@ -85,7 +85,7 @@ inductive KP where
   | k0                        -- locked; `c.closed.Load()`
   | k0b                       -- `c.conn == nil || c.conn.ctx.Err() != nil`
   | rc0                       -- reconnect: `c.conn != nil` → `conn.Close()`: `closed.Swap(true)`
-  | rc1 | rc2 | rc3           -- … its terminate: cancel / swap tx / close stream
+  | rc1 | rc2                 -- … its terminate: cancel / swap tx + close stream
   | rc4                       -- `c.conn = nil`
   | rc5                       -- `c.dialer(ctx)`; on success `c.conn = newConn(stream)`
   | k1                        -- send: checkAvailable
@@ -94,7 +94,7 @@ inductive KP where
   | k4                        -- inner select of send (waiting for the error channel)
   | k5                        -- [y: cli.roundtrip.afterSend] recv: checkAvailable
   | k6                        -- select of recv
-  | ktA | ktB | ktC           -- terminate called by send/recv, then return the error class `kres`
+  | ktA | ktB                 -- terminate called by send/recv (cancel / swap tx + close stream), then return the error class `kres`
   | k7c                       -- retry loop: `c.closed.Load()` [y: cli.beforeReconnect], `retry--`
   | retOk | retErr            -- about to return (unlock)
   deriving Repr, DecidableEq, Inhabited
@@ -102,7 +102,7 @@ inductive KP where
 /-- `Client.Close()`. `c1`: `c.closed.Store(true)` done, about to read `c.conn`; `c2`: `conn.Close()`:
     `closed.Swap(true)`; `ctA..ctC` its terminate. -/
 inductive CP where
-  | c0 | c1 | c2 | ctA | ctB | ctC | cDone
+  | c0 | c1 | c2 | ctA | ctB | cDone
   deriving Repr, DecidableEq, Inhabited
 
 /-- message queues (requests pending at the server; responses in flight to the client):
@@ -133,8 +133,7 @@ structure St where
   cref : Bool                 -- the pointer held by `C` is the current connection
   -- ghosts
   ntx : Nat                   -- requests handed to the writer by the current call (saturates at 5)
-  faultFree : Bool            -- the injector is switched off for good; dials succeed
-  clean : Bool                -- the current call started in a fault-free, settled, open client and has not been cancelled
+  clean : Bool                -- the current call started in a settled, open client; no fault, cancellation or Close since
   born : Bool                 -- the current call started after `Close()` had set `c.closed`
   raced : Bool                -- a connection was installed while `c.closed` was already set
   stale : Bool                -- BAD: a stale response was handed to a caller
@@ -147,7 +146,7 @@ def init : St :=
   { has := false, rp := .r0, wp := .wc, closed := false, cause := 0, txNil := false, txClosed := false,
     netClosed := false, errCh := 0, pend := 0, infl := 0, tainted := false,
     kp := .idle, kres := 0, retry := 0, kctx := false, cclosed := false, cp := .c0, cref := false,
-    ntx := 0, faultFree := false, clean := false, born := false, raced := false,
+    ntx := 0, clean := false, born := false, raced := false,
     stale := false, reused := false, overflow := false, panic := 0 }
 
 /-! ### helpers -/
@@ -220,8 +219,7 @@ def stepR (p : Params) (s : St) : List St :=
   | .r2c | .r2s => if s.cause ≠ 0 then [{ s with rp := .rEnd }] else []
   | .rtA1 => [{ setCause s 1 with rp := .rtB }]
   | .rtA2 => [{ setCause s 2 with rp := .rtB }]
-  | .rtB => [{ swapTx p s with rp := .rtC }]
-  | .rtC => [{ s with netClosed := true, rp := .rEnd }]
+  | .rtB => [{ swapTx p s with netClosed := true, rp := .rEnd }]
   | .rEnd => []
 
 def stepW (p : Params) (s : St) : List St :=
@@ -245,8 +243,7 @@ def stepW (p : Params) (s : St) : List St :=
   | .w2sf => failW false 2
   | .wtA1 => [{ setCause s 1 with wp := .wtB }]
   | .wtA2 => [{ setCause s 2 with wp := .wtB }]
-  | .wtB => [{ swapTx p s with wp := .wtC }]
-  | .wtC => [{ s with netClosed := true, wp := .wEnd }]
+  | .wtB => [{ swapTx p s with netClosed := true, wp := .wEnd }]
   | .wEnd => []
 
 /-- the outcomes of `checkAvailable(ctx)` as error classes (`none` = available). -/
@@ -266,12 +263,11 @@ def stepK (p : Params) (s : St) : List St :=
      else if s.closed then { s with kp := .rc4 }
      else { s with closed := true, kp := .rc1 }]
   | .rc1 => [{ setCause s 2 with kp := .rc2 }]
-  | .rc2 => [{ swapTx p s with kp := .rc3 }]
-  | .rc3 => [{ s with netClosed := true, kp := .rc4 }]
+  | .rc2 => [{ swapTx p s with netClosed := true, kp := .rc4 }]
   | .rc4 => [{ dropConn s with cref := false, kp := .rc5 }]
   | .rc5 =>
     -- the dial succeeds (failure is an environment step)
-    let t := { freshConn s with raced := s.raced || s.cclosed }
+    let t := { freshConn s with raced := s.raced || (s.cclosed && !p.recheckAfterDial) }
     [if p.recheckAfterDial ∧ s.cclosed then { t with closed := true, kres := 2, kp := .ktA }
      else { t with kp := .k1 }]
   | .k1 =>
@@ -307,11 +303,10 @@ def stepK (p : Params) (s : St) : List St :=
     ++ (if s.cause ≠ 0 then [kResult (abandon s) s.cause] else [])
     ++ (if s.kctx then [{ abandon s with kres := 2, kp := .ktA }] else [])
   | .ktA => [{ setCause s 1 with kp := .ktB }]           -- terminate(io.ErrClosedPipe)
-  | .ktB => [{ swapTx p s with kp := .ktC }]
-  | .ktC => [kResult { s with netClosed := true } s.kres]
+  | .ktB => [kResult { swapTx p s with netClosed := true } s.kres]
   | .k7c =>
     [if p.closeRepaired ∧ s.cclosed then { s with kp := .retErr }
-     else { s with retry := s.retry - 1, kp := .rc0 }]
+     else { s with retry := s.retry - 1, ntx := max s.ntx (4 - s.retry), kp := .rc0 }]
   | .retOk | .retErr =>
     [{ s with kp := .idle, kres := 0, retry := 0, kctx := false, ntx := 0, clean := false, born := false }]
 
@@ -327,9 +322,8 @@ def stepC (p : Params) (s : St) : List St :=
      else if s.closed then { s with cp := .cDone, cref := false }
      else { s with closed := true, cp := .ctA }]
   | .ctA => [if !s.cref then { s with cp := .cDone } else { setCause s 2 with cp := .ctB }]
-  | .ctB => [if !s.cref then { s with cp := .cDone } else { swapTx p s with cp := .ctC }]
-  | .ctC => [if !s.cref then { s with cp := .cDone }
-             else { s with netClosed := true, cp := .cDone, cref := false }]
+  | .ctB => [if !s.cref then { s with cp := .cDone }
+             else { swapTx p s with netClosed := true, cp := .cDone, cref := false }]
 
 def stepInt (p : Params) (s : St) : List St :=
   stepK p s ++ stepR p s ++ stepW p s ++ stepC p s
@@ -395,7 +389,52 @@ def stepEnv (p : Params) (s : St) : List St :=
   envStart s ++ (if p.dbg % 2 = 1 then [] else envCancel s) ++ (if p.dbg / 2 % 2 = 1 then [] else envClose p s) ++ envAnswer s ++ envWritten s
   ++ (if p.dbg / 4 % 2 = 1 then [] else dirty (envReadFault s 1 ++ envReadFault s 2 ++ envWriteFault s 1 ++ envWriteFault s 2 ++ envDialFail s))
 
-def step (p : Params) (s : St) : List St := stepInt p s ++ stepEnv p s
+/-- FUSION OF NO-OP STEPS. A `cancel` on an already cancelled context, a swap+close on an already
+    swapped and closed connection, and the loop test `!c.closed.Load()` once `closed` is set, change
+    nothing but the program counter of the goroutine executing them; the flags are monotone, so such a
+    step stays a no-op, commutes with every step of every other process, and is not observed by any
+    predicate of this file. It is therefore fused with the step that precedes it (of the same goroutine,
+    or of the goroutine that set the flag). `norm` is applied to every successor state. -/
+def norm1 (p : Params) (s : St) : St :=
+  let dead := s.txNil && s.netClosed
+  let rp := if !s.has then s.rp else match s.rp with
+    | .r0 => if s.closed then .rEnd else .r0
+    | .rtA1 => if s.cause != 0 then (if dead then .rEnd else .rtB) else .rtA1
+    | .rtA2 => if s.cause != 0 then (if dead then .rEnd else .rtB) else .rtA2
+    | .rtB => if dead then .rEnd else .rtB
+    -- the hand-off select can only take `<-c.ctx.Done()`: no caller is or can come into `recv`'s select
+    | .r2c => if s.cause != 0 && s.kp != .k6 then .rEnd else .r2c
+    | .r2s => if s.cause != 0 && s.kp != .k6 then .rEnd else .r2s
+    | r => r
+  let wp := if !s.has then s.wp else match s.wp with
+    | .wc => if s.closed then .wEnd else .wc
+    | .wtA1 => if s.cause != 0 then (if dead then .wEnd else .wtB) else .wtA1
+    | .wtA2 => if s.cause != 0 then (if dead then .wEnd else .wtB) else .wtA2
+    | .wtB => if dead then .wEnd else .wtB
+    -- the select can only take `<-c.ctx.Done()`: no caller holds or can still load the channel
+    | .ws => if s.cause != 0 && s.kp != .k2 && s.kp != .k3o then .wEnd else .ws
+    -- the error of a message whose sender has left goes into a buffered channel nobody reads
+    | .w2sr => if p.errChBuffered then (if s.cause != 0 then (if dead then .wEnd else .wtB) else .wtA1) else .w2sr
+    | .w2sf => if p.errChBuffered then (if s.cause != 0 then (if dead then .wEnd else .wtB) else .wtA2) else .w2sf
+    | w => w
+  let kp := match s.kp with
+    | .rc1 => if s.cause != 0 then (if dead then .rc4 else .rc2) else .rc1
+    | .rc2 => if dead then .rc4 else .rc2
+    | .ktA => if s.cause != 0 then .ktB else .ktA
+    | k => k
+  let cdone := s.cref && dead && (s.cp == .ctB || (s.cp == .ctA && s.cause != 0))
+  let cp := if cdone then .cDone else if s.cref && s.cp == .ctA && s.cause != 0 then .ctB else s.cp
+  { s with rp := rp, wp := wp, kp := kp, cp := cp, cref := s.cref && !cdone }
+
+/-- one pass of `norm1` can enable another (e.g. `ktA → ktB` never, but `k6` left ⇒ `r2 → rEnd`); the
+    fusions are idempotent after two passes on every state produced by a single step. -/
+def norm (p : Params) (s : St) : St := norm1 p (norm1 p s)
+
+/-- successors. Exploration stops at the first state in which a connection has been installed although
+    `Close()` had already set `c.closed` (`raced`; only possible without `recheckAfterDial`): every run
+    either never does that, or has a prefix ending in such a state. -/
+def step (p : Params) (s : St) : List St :=
+  if s.raced then [] else (stepInt p s ++ stepEnv p s).map (norm p)
 
 def sys (p : Params) : Sys St := { init := init, step := step p }
 
@@ -409,8 +448,7 @@ def connEnded (s : St) : Bool := s.rp == .rEnd && s.wp == .wEnd
     `Close()` holding a pointer to it is inside its `terminate`. -/
 def handoffOk (s : St) : Bool :=
   s.closed && ((s.cause != 0 && s.txNil && s.netClosed)
-    || (s.cref && (s.cp == .ctA || (s.cp == .ctB && s.cause != 0)
-                   || (s.cp == .ctC && s.cause != 0 && s.txNil))))
+    || (s.cref && (s.cp == .ctA || (s.cp == .ctB && s.cause != 0))))
 
 def badStale (s : St) : Bool := s.stale
 def badReuse (s : St) : Bool := s.reused
@@ -442,75 +480,271 @@ def badFull (p : Params) (s : St) : Bool := badPartial p s || badStuck p s || s.
 /-! ### coding -/
 
 def RP.toN : RP → Nat
-  | .r0 => 0 | .r1 => 1 | .r2c => 2 | .r2s => 3 | .rtA1 => 4 | .rtA2 => 5 | .rtB => 6 | .rtC => 7 | .rEnd => 8
+  | .r0 => 0 | .r1 => 1 | .r2c => 2 | .r2s => 3 | .rtA1 => 4 | .rtA2 => 5 | .rtB => 6 | .rEnd => 7
 def RP.ofN : Nat → RP
-  | 0 => .r0 | 1 => .r1 | 2 => .r2c | 3 => .r2s | 4 => .rtA1 | 5 => .rtA2 | 6 => .rtB | 7 => .rtC | _ => .rEnd
+  | 0 => .r0 | 1 => .r1 | 2 => .r2c | 3 => .r2s | 4 => .rtA1 | 5 => .rtA2 | 6 => .rtB | _ => .rEnd
 def WP.toN : WP → Nat
   | .wc => 0 | .ws => 1 | .w1c => 2 | .w1s => 3 | .w2cr => 4 | .w2cf => 5 | .w2sr => 6 | .w2sf => 7
-  | .wtA1 => 8 | .wtA2 => 9 | .wtB => 10 | .wtC => 11 | .wEnd => 12
+  | .wtA1 => 8 | .wtA2 => 9 | .wtB => 10 | .wEnd => 11
 def WP.ofN : Nat → WP
   | 0 => .wc | 1 => .ws | 2 => .w1c | 3 => .w1s | 4 => .w2cr | 5 => .w2cf | 6 => .w2sr | 7 => .w2sf
-  | 8 => .wtA1 | 9 => .wtA2 | 10 => .wtB | 11 => .wtC | _ => .wEnd
+  | 8 => .wtA1 | 9 => .wtA2 | 10 => .wtB | _ => .wEnd
 def KP.toN : KP → Nat
-  | .idle => 0 | .k0 => 1 | .k0b => 2 | .rc0 => 3 | .rc1 => 4 | .rc2 => 5 | .rc3 => 6 | .rc4 => 7 | .rc5 => 8
-  | .k1 => 9 | .k2 => 10 | .k3o => 11 | .k3n => 12 | .k4 => 13 | .k5 => 14 | .k6 => 15
-  | .ktA => 16 | .ktB => 17 | .ktC => 18 | .k7c => 19 | .retOk => 20 | .retErr => 21
+  | .idle => 0 | .k0 => 1 | .k0b => 2 | .rc0 => 3 | .rc1 => 4 | .rc2 => 5 | .rc4 => 6 | .rc5 => 7
+  | .k1 => 8 | .k2 => 9 | .k3o => 10 | .k3n => 11 | .k4 => 12 | .k5 => 13 | .k6 => 14
+  | .ktA => 15 | .ktB => 16 | .k7c => 17 | .retOk => 18 | .retErr => 19
 def KP.ofN : Nat → KP
-  | 0 => .idle | 1 => .k0 | 2 => .k0b | 3 => .rc0 | 4 => .rc1 | 5 => .rc2 | 6 => .rc3 | 7 => .rc4 | 8 => .rc5
-  | 9 => .k1 | 10 => .k2 | 11 => .k3o | 12 => .k3n | 13 => .k4 | 14 => .k5 | 15 => .k6
-  | 16 => .ktA | 17 => .ktB | 18 => .ktC | 19 => .k7c | 20 => .retOk | _ => .retErr
+  | 0 => .idle | 1 => .k0 | 2 => .k0b | 3 => .rc0 | 4 => .rc1 | 5 => .rc2 | 6 => .rc4 | 7 => .rc5
+  | 8 => .k1 | 9 => .k2 | 10 => .k3o | 11 => .k3n | 12 => .k4 | 13 => .k5 | 14 => .k6
+  | 15 => .ktA | 16 => .ktB | 17 => .k7c | 18 => .retOk | _ => .retErr
 def CP.toN : CP → Nat
-  | .c0 => 0 | .c1 => 1 | .c2 => 2 | .ctA => 3 | .ctB => 4 | .ctC => 5 | .cDone => 6
+  | .c0 => 0 | .c1 => 1 | .c2 => 2 | .ctA => 3 | .ctB => 4 | .cDone => 5
 def CP.ofN : Nat → CP
-  | 0 => .c0 | 1 => .c1 | 2 => .c2 | 3 => .ctA | 4 => .ctB | 5 => .ctC | _ => .cDone
+  | 0 => .c0 | 1 => .c1 | 2 => .c2 | 3 => .ctA | 4 => .ctB | _ => .cDone
 
-/-- mixed-radix packing of (value, radix) pairs, least significant first. -/
+/-- mixed-radix packing of (value, radix) pairs, least significant first (used by `CliScenario`). -/
 def pack : List (Nat × Nat) → Nat
   | [] => 0
   | (v, r) :: rest => v + r * pack rest
 
+/-- mixed-radix code of a state: field × weight, weight = product of the radices of the earlier fields.
+    (Flat sums / independent divisions on purpose: `let`-chains are very slow in kernel evaluation.) -/
 def code (s : St) : Nat :=
-  pack [(s.has.toNat, 2), (s.rp.toN, 9), (s.wp.toN, 13), (s.closed.toNat, 2), (s.cause, 3),
-    (s.txNil.toNat, 2), (s.txClosed.toNat, 2), (s.netClosed.toNat, 2), (s.errCh, 4), (s.pend, 4),
-    (s.infl, 4), (s.tainted.toNat, 2), (s.kp.toN, 22), (s.kres, 3), (s.retry, 4), (s.kctx.toNat, 2),
-    (s.cclosed.toNat, 2), (s.cp.toN, 7), (s.cref.toNat, 2), (s.ntx, 6), (s.faultFree.toNat, 2),
-    (s.clean.toNat, 2), (s.born.toNat, 2), (s.raced.toNat, 2), (s.stale.toNat, 2), (s.reused.toNat, 2),
-    (s.overflow.toNat, 2), (s.panic, 3)]
-
-@[inline] def bit (n : Nat) : Bool := n % 2 == 1
+  Nat.add (s.has.toNat)
+  (Nat.add (Nat.mul s.rp.toN 2)
+  (Nat.add (Nat.mul s.wp.toN 16)
+  (Nat.add (Nat.mul s.closed.toNat 192)
+  (Nat.add (Nat.mul s.cause 384)
+  (Nat.add (Nat.mul s.txNil.toNat 1152)
+  (Nat.add (Nat.mul s.txClosed.toNat 2304)
+  (Nat.add (Nat.mul s.netClosed.toNat 4608)
+  (Nat.add (Nat.mul s.errCh 9216)
+  (Nat.add (Nat.mul s.pend 36864)
+  (Nat.add (Nat.mul s.infl 147456)
+  (Nat.add (Nat.mul s.tainted.toNat 589824)
+  (Nat.add (Nat.mul s.kp.toN 1179648)
+  (Nat.add (Nat.mul s.kres 23592960)
+  (Nat.add (Nat.mul s.retry 70778880)
+  (Nat.add (Nat.mul s.kctx.toNat 283115520)
+  (Nat.add (Nat.mul s.cclosed.toNat 566231040)
+  (Nat.add (Nat.mul s.cp.toN 1132462080)
+  (Nat.add (Nat.mul s.cref.toNat 6794772480)
+  (Nat.add (Nat.mul s.ntx 13589544960)
+  (Nat.add (Nat.mul s.clean.toNat 81537269760)
+  (Nat.add (Nat.mul s.born.toNat 163074539520)
+  (Nat.add (Nat.mul s.raced.toNat 326149079040)
+  (Nat.add (Nat.mul s.stale.toNat 652298158080)
+  (Nat.add (Nat.mul s.reused.toNat 1304596316160)
+  (Nat.add (Nat.mul s.overflow.toNat 2609192632320)
+  (Nat.mul s.panic 5218385264640))))))))))))))))))))))))))
 
 def decode (n : Nat) : St :=
-  let has := bit n;           let n := n / 2
-  let rp := RP.ofN (n % 9); let n := n / 9
-  let wp := WP.ofN (n % 13); let n := n / 13
-  let closed := bit n;        let n := n / 2
-  let cause := n % 3;         let n := n / 3
-  let txNil := bit n;         let n := n / 2
-  let txClosed := bit n;      let n := n / 2
-  let netClosed := bit n;     let n := n / 2
-  let errCh := n % 4;         let n := n / 4
-  let pend := n % 4;          let n := n / 4
-  let infl := n % 4;          let n := n / 4
-  let tainted := bit n;       let n := n / 2
-  let kp := KP.ofN (n % 22); let n := n / 22
-  let kres := n % 3;          let n := n / 3
-  let retry := n % 4;         let n := n / 4
-  let kctx := bit n;          let n := n / 2
-  let cclosed := bit n;       let n := n / 2
-  let cp := CP.ofN (n % 7); let n := n / 7
-  let cref := bit n;          let n := n / 2
-  let ntx := n % 6;           let n := n / 6
-  let faultFree := bit n;     let n := n / 2
-  let clean := bit n;         let n := n / 2
-  let born := bit n;          let n := n / 2
-  let raced := bit n;         let n := n / 2
-  let stale := bit n;         let n := n / 2
-  let reused := bit n;        let n := n / 2
-  let overflow := bit n;      let n := n / 2
-  let panic := n % 3
-  { has, rp, wp, closed, cause, txNil, txClosed, netClosed, errCh, pend, infl, tainted, kp, kres,
-    retry, kctx, cclosed, cp, cref, ntx, faultFree, clean, born, raced, stale, reused, overflow, panic }
+  { has := Nat.beq (Nat.mod (Nat.div n 1) 2) 1, rp := RP.ofN (Nat.mod (Nat.div n 2) 8),
+    wp := WP.ofN (Nat.mod (Nat.div n 16) 12), closed := Nat.beq (Nat.mod (Nat.div n 192) 2) 1,
+    cause := Nat.mod (Nat.div n 384) 3, txNil := Nat.beq (Nat.mod (Nat.div n 1152) 2) 1,
+    txClosed := Nat.beq (Nat.mod (Nat.div n 2304) 2) 1, netClosed := Nat.beq (Nat.mod (Nat.div n 4608) 2) 1,
+    errCh := Nat.mod (Nat.div n 9216) 4, pend := Nat.mod (Nat.div n 36864) 4,
+    infl := Nat.mod (Nat.div n 147456) 4, tainted := Nat.beq (Nat.mod (Nat.div n 589824) 2) 1,
+    kp := KP.ofN (Nat.mod (Nat.div n 1179648) 20), kres := Nat.mod (Nat.div n 23592960) 3,
+    retry := Nat.mod (Nat.div n 70778880) 4, kctx := Nat.beq (Nat.mod (Nat.div n 283115520) 2) 1,
+    cclosed := Nat.beq (Nat.mod (Nat.div n 566231040) 2) 1, cp := CP.ofN (Nat.mod (Nat.div n 1132462080) 6),
+    cref := Nat.beq (Nat.mod (Nat.div n 6794772480) 2) 1, ntx := Nat.mod (Nat.div n 13589544960) 6,
+    clean := Nat.beq (Nat.mod (Nat.div n 81537269760) 2) 1,
+    born := Nat.beq (Nat.mod (Nat.div n 163074539520) 2) 1,
+    raced := Nat.beq (Nat.mod (Nat.div n 326149079040) 2) 1,
+    stale := Nat.beq (Nat.mod (Nat.div n 652298158080) 2) 1,
+    reused := Nat.beq (Nat.mod (Nat.div n 1304596316160) 2) 1,
+    overflow := Nat.beq (Nat.mod (Nat.div n 2609192632320) 2) 1,
+    panic := Nat.mod (Nat.div n 5218385264640) 3 }
 
-def codec : Codec St := { code := code, decode := decode }
+/-- the numeric fields are within their radix (booleans and program counters always are). -/
+def wf (s : St) : Bool :=
+  Nat.blt s.cause 3 && Nat.blt s.errCh 4 && Nat.blt s.pend 4 && Nat.blt s.infl 4 && Nat.blt s.kres 3 && Nat.blt s.retry 4 && Nat.blt s.ntx 6 && Nat.blt s.panic 3
+
+theorem nat_div_eq (a b : Nat) : Nat.div a b = a / b := rfl
+theorem nat_mod_eq (a b : Nat) : Nat.mod a b = a % b := rfl
+theorem toNat_lt2 (b : Bool) : b.toNat < 2 := by cases b <;> decide
+theorem RP.toN_lt (x : RP) : x.toN < 8 := by cases x <;> decide
+theorem WP.toN_lt (x : WP) : x.toN < 12 := by cases x <;> decide
+theorem KP.toN_lt (x : KP) : x.toN < 20 := by cases x <;> decide
+theorem CP.toN_lt (x : CP) : x.toN < 6 := by cases x <;> decide
+theorem RP.ofN_toN (x : RP) : RP.ofN x.toN = x := by cases x <;> rfl
+theorem WP.ofN_toN (x : WP) : WP.ofN x.toN = x := by cases x <;> rfl
+theorem KP.ofN_toN (x : KP) : KP.ofN x.toN = x := by cases x <;> rfl
+theorem CP.ofN_toN (x : CP) : CP.ofN x.toN = x := by cases x <;> rfl
+
+set_option linter.unusedVariables false in
+theorem fld0 (v0 v1 v2 v3 v4 v5 v6 v7 v8 v9 v10 v11 v12 v13 v14 v15 v16 v17 v18 v19 v20 v21 v22 v23 v24 v25 v26 : Nat)
+    (h0 : v0 < 2) (h1 : v1 < 8) (h2 : v2 < 12) (h3 : v3 < 2) (h4 : v4 < 3) (h5 : v5 < 2) (h6 : v6 < 2) (h7 : v7 < 2) (h8 : v8 < 4) (h9 : v9 < 4) (h10 : v10 < 4) (h11 : v11 < 2) (h12 : v12 < 20) (h13 : v13 < 3) (h14 : v14 < 4) (h15 : v15 < 2) (h16 : v16 < 2) (h17 : v17 < 6) (h18 : v18 < 2) (h19 : v19 < 6) (h20 : v20 < 2) (h21 : v21 < 2) (h22 : v22 < 2) (h23 : v23 < 2) (h24 : v24 < 2) (h25 : v25 < 2) (h26 : v26 < 3) :
+    (v0 + (v1 * 2 + (v2 * 16 + (v3 * 192 + (v4 * 384 + (v5 * 1152 + (v6 * 2304 + (v7 * 4608 + (v8 * 9216 + (v9 * 36864 + (v10 * 147456 + (v11 * 589824 + (v12 * 1179648 + (v13 * 23592960 + (v14 * 70778880 + (v15 * 283115520 + (v16 * 566231040 + (v17 * 1132462080 + (v18 * 6794772480 + (v19 * 13589544960 + (v20 * 81537269760 + (v21 * 163074539520 + (v22 * 326149079040 + (v23 * 652298158080 + (v24 * 1304596316160 + (v25 * 2609192632320 + (v26 * 5218385264640))))))))))))))))))))))))))) / 1 % 2 = v0 := by omega
+set_option linter.unusedVariables false in
+theorem fld1 (v0 v1 v2 v3 v4 v5 v6 v7 v8 v9 v10 v11 v12 v13 v14 v15 v16 v17 v18 v19 v20 v21 v22 v23 v24 v25 v26 : Nat)
+    (h0 : v0 < 2) (h1 : v1 < 8) (h2 : v2 < 12) (h3 : v3 < 2) (h4 : v4 < 3) (h5 : v5 < 2) (h6 : v6 < 2) (h7 : v7 < 2) (h8 : v8 < 4) (h9 : v9 < 4) (h10 : v10 < 4) (h11 : v11 < 2) (h12 : v12 < 20) (h13 : v13 < 3) (h14 : v14 < 4) (h15 : v15 < 2) (h16 : v16 < 2) (h17 : v17 < 6) (h18 : v18 < 2) (h19 : v19 < 6) (h20 : v20 < 2) (h21 : v21 < 2) (h22 : v22 < 2) (h23 : v23 < 2) (h24 : v24 < 2) (h25 : v25 < 2) (h26 : v26 < 3) :
+    (v0 + (v1 * 2 + (v2 * 16 + (v3 * 192 + (v4 * 384 + (v5 * 1152 + (v6 * 2304 + (v7 * 4608 + (v8 * 9216 + (v9 * 36864 + (v10 * 147456 + (v11 * 589824 + (v12 * 1179648 + (v13 * 23592960 + (v14 * 70778880 + (v15 * 283115520 + (v16 * 566231040 + (v17 * 1132462080 + (v18 * 6794772480 + (v19 * 13589544960 + (v20 * 81537269760 + (v21 * 163074539520 + (v22 * 326149079040 + (v23 * 652298158080 + (v24 * 1304596316160 + (v25 * 2609192632320 + (v26 * 5218385264640))))))))))))))))))))))))))) / 2 % 8 = v1 := by omega
+set_option linter.unusedVariables false in
+theorem fld2 (v0 v1 v2 v3 v4 v5 v6 v7 v8 v9 v10 v11 v12 v13 v14 v15 v16 v17 v18 v19 v20 v21 v22 v23 v24 v25 v26 : Nat)
+    (h0 : v0 < 2) (h1 : v1 < 8) (h2 : v2 < 12) (h3 : v3 < 2) (h4 : v4 < 3) (h5 : v5 < 2) (h6 : v6 < 2) (h7 : v7 < 2) (h8 : v8 < 4) (h9 : v9 < 4) (h10 : v10 < 4) (h11 : v11 < 2) (h12 : v12 < 20) (h13 : v13 < 3) (h14 : v14 < 4) (h15 : v15 < 2) (h16 : v16 < 2) (h17 : v17 < 6) (h18 : v18 < 2) (h19 : v19 < 6) (h20 : v20 < 2) (h21 : v21 < 2) (h22 : v22 < 2) (h23 : v23 < 2) (h24 : v24 < 2) (h25 : v25 < 2) (h26 : v26 < 3) :
+    (v0 + (v1 * 2 + (v2 * 16 + (v3 * 192 + (v4 * 384 + (v5 * 1152 + (v6 * 2304 + (v7 * 4608 + (v8 * 9216 + (v9 * 36864 + (v10 * 147456 + (v11 * 589824 + (v12 * 1179648 + (v13 * 23592960 + (v14 * 70778880 + (v15 * 283115520 + (v16 * 566231040 + (v17 * 1132462080 + (v18 * 6794772480 + (v19 * 13589544960 + (v20 * 81537269760 + (v21 * 163074539520 + (v22 * 326149079040 + (v23 * 652298158080 + (v24 * 1304596316160 + (v25 * 2609192632320 + (v26 * 5218385264640))))))))))))))))))))))))))) / 16 % 12 = v2 := by omega
+set_option linter.unusedVariables false in
+theorem fld3 (v0 v1 v2 v3 v4 v5 v6 v7 v8 v9 v10 v11 v12 v13 v14 v15 v16 v17 v18 v19 v20 v21 v22 v23 v24 v25 v26 : Nat)
+    (h0 : v0 < 2) (h1 : v1 < 8) (h2 : v2 < 12) (h3 : v3 < 2) (h4 : v4 < 3) (h5 : v5 < 2) (h6 : v6 < 2) (h7 : v7 < 2) (h8 : v8 < 4) (h9 : v9 < 4) (h10 : v10 < 4) (h11 : v11 < 2) (h12 : v12 < 20) (h13 : v13 < 3) (h14 : v14 < 4) (h15 : v15 < 2) (h16 : v16 < 2) (h17 : v17 < 6) (h18 : v18 < 2) (h19 : v19 < 6) (h20 : v20 < 2) (h21 : v21 < 2) (h22 : v22 < 2) (h23 : v23 < 2) (h24 : v24 < 2) (h25 : v25 < 2) (h26 : v26 < 3) :
+    (v0 + (v1 * 2 + (v2 * 16 + (v3 * 192 + (v4 * 384 + (v5 * 1152 + (v6 * 2304 + (v7 * 4608 + (v8 * 9216 + (v9 * 36864 + (v10 * 147456 + (v11 * 589824 + (v12 * 1179648 + (v13 * 23592960 + (v14 * 70778880 + (v15 * 283115520 + (v16 * 566231040 + (v17 * 1132462080 + (v18 * 6794772480 + (v19 * 13589544960 + (v20 * 81537269760 + (v21 * 163074539520 + (v22 * 326149079040 + (v23 * 652298158080 + (v24 * 1304596316160 + (v25 * 2609192632320 + (v26 * 5218385264640))))))))))))))))))))))))))) / 192 % 2 = v3 := by omega
+set_option linter.unusedVariables false in
+theorem fld4 (v0 v1 v2 v3 v4 v5 v6 v7 v8 v9 v10 v11 v12 v13 v14 v15 v16 v17 v18 v19 v20 v21 v22 v23 v24 v25 v26 : Nat)
+    (h0 : v0 < 2) (h1 : v1 < 8) (h2 : v2 < 12) (h3 : v3 < 2) (h4 : v4 < 3) (h5 : v5 < 2) (h6 : v6 < 2) (h7 : v7 < 2) (h8 : v8 < 4) (h9 : v9 < 4) (h10 : v10 < 4) (h11 : v11 < 2) (h12 : v12 < 20) (h13 : v13 < 3) (h14 : v14 < 4) (h15 : v15 < 2) (h16 : v16 < 2) (h17 : v17 < 6) (h18 : v18 < 2) (h19 : v19 < 6) (h20 : v20 < 2) (h21 : v21 < 2) (h22 : v22 < 2) (h23 : v23 < 2) (h24 : v24 < 2) (h25 : v25 < 2) (h26 : v26 < 3) :
+    (v0 + (v1 * 2 + (v2 * 16 + (v3 * 192 + (v4 * 384 + (v5 * 1152 + (v6 * 2304 + (v7 * 4608 + (v8 * 9216 + (v9 * 36864 + (v10 * 147456 + (v11 * 589824 + (v12 * 1179648 + (v13 * 23592960 + (v14 * 70778880 + (v15 * 283115520 + (v16 * 566231040 + (v17 * 1132462080 + (v18 * 6794772480 + (v19 * 13589544960 + (v20 * 81537269760 + (v21 * 163074539520 + (v22 * 326149079040 + (v23 * 652298158080 + (v24 * 1304596316160 + (v25 * 2609192632320 + (v26 * 5218385264640))))))))))))))))))))))))))) / 384 % 3 = v4 := by omega
+set_option linter.unusedVariables false in
+theorem fld5 (v0 v1 v2 v3 v4 v5 v6 v7 v8 v9 v10 v11 v12 v13 v14 v15 v16 v17 v18 v19 v20 v21 v22 v23 v24 v25 v26 : Nat)
+    (h0 : v0 < 2) (h1 : v1 < 8) (h2 : v2 < 12) (h3 : v3 < 2) (h4 : v4 < 3) (h5 : v5 < 2) (h6 : v6 < 2) (h7 : v7 < 2) (h8 : v8 < 4) (h9 : v9 < 4) (h10 : v10 < 4) (h11 : v11 < 2) (h12 : v12 < 20) (h13 : v13 < 3) (h14 : v14 < 4) (h15 : v15 < 2) (h16 : v16 < 2) (h17 : v17 < 6) (h18 : v18 < 2) (h19 : v19 < 6) (h20 : v20 < 2) (h21 : v21 < 2) (h22 : v22 < 2) (h23 : v23 < 2) (h24 : v24 < 2) (h25 : v25 < 2) (h26 : v26 < 3) :
+    (v0 + (v1 * 2 + (v2 * 16 + (v3 * 192 + (v4 * 384 + (v5 * 1152 + (v6 * 2304 + (v7 * 4608 + (v8 * 9216 + (v9 * 36864 + (v10 * 147456 + (v11 * 589824 + (v12 * 1179648 + (v13 * 23592960 + (v14 * 70778880 + (v15 * 283115520 + (v16 * 566231040 + (v17 * 1132462080 + (v18 * 6794772480 + (v19 * 13589544960 + (v20 * 81537269760 + (v21 * 163074539520 + (v22 * 326149079040 + (v23 * 652298158080 + (v24 * 1304596316160 + (v25 * 2609192632320 + (v26 * 5218385264640))))))))))))))))))))))))))) / 1152 % 2 = v5 := by omega
+set_option linter.unusedVariables false in
+theorem fld6 (v0 v1 v2 v3 v4 v5 v6 v7 v8 v9 v10 v11 v12 v13 v14 v15 v16 v17 v18 v19 v20 v21 v22 v23 v24 v25 v26 : Nat)
+    (h0 : v0 < 2) (h1 : v1 < 8) (h2 : v2 < 12) (h3 : v3 < 2) (h4 : v4 < 3) (h5 : v5 < 2) (h6 : v6 < 2) (h7 : v7 < 2) (h8 : v8 < 4) (h9 : v9 < 4) (h10 : v10 < 4) (h11 : v11 < 2) (h12 : v12 < 20) (h13 : v13 < 3) (h14 : v14 < 4) (h15 : v15 < 2) (h16 : v16 < 2) (h17 : v17 < 6) (h18 : v18 < 2) (h19 : v19 < 6) (h20 : v20 < 2) (h21 : v21 < 2) (h22 : v22 < 2) (h23 : v23 < 2) (h24 : v24 < 2) (h25 : v25 < 2) (h26 : v26 < 3) :
+    (v0 + (v1 * 2 + (v2 * 16 + (v3 * 192 + (v4 * 384 + (v5 * 1152 + (v6 * 2304 + (v7 * 4608 + (v8 * 9216 + (v9 * 36864 + (v10 * 147456 + (v11 * 589824 + (v12 * 1179648 + (v13 * 23592960 + (v14 * 70778880 + (v15 * 283115520 + (v16 * 566231040 + (v17 * 1132462080 + (v18 * 6794772480 + (v19 * 13589544960 + (v20 * 81537269760 + (v21 * 163074539520 + (v22 * 326149079040 + (v23 * 652298158080 + (v24 * 1304596316160 + (v25 * 2609192632320 + (v26 * 5218385264640))))))))))))))))))))))))))) / 2304 % 2 = v6 := by omega
+set_option linter.unusedVariables false in
+theorem fld7 (v0 v1 v2 v3 v4 v5 v6 v7 v8 v9 v10 v11 v12 v13 v14 v15 v16 v17 v18 v19 v20 v21 v22 v23 v24 v25 v26 : Nat)
+    (h0 : v0 < 2) (h1 : v1 < 8) (h2 : v2 < 12) (h3 : v3 < 2) (h4 : v4 < 3) (h5 : v5 < 2) (h6 : v6 < 2) (h7 : v7 < 2) (h8 : v8 < 4) (h9 : v9 < 4) (h10 : v10 < 4) (h11 : v11 < 2) (h12 : v12 < 20) (h13 : v13 < 3) (h14 : v14 < 4) (h15 : v15 < 2) (h16 : v16 < 2) (h17 : v17 < 6) (h18 : v18 < 2) (h19 : v19 < 6) (h20 : v20 < 2) (h21 : v21 < 2) (h22 : v22 < 2) (h23 : v23 < 2) (h24 : v24 < 2) (h25 : v25 < 2) (h26 : v26 < 3) :
+    (v0 + (v1 * 2 + (v2 * 16 + (v3 * 192 + (v4 * 384 + (v5 * 1152 + (v6 * 2304 + (v7 * 4608 + (v8 * 9216 + (v9 * 36864 + (v10 * 147456 + (v11 * 589824 + (v12 * 1179648 + (v13 * 23592960 + (v14 * 70778880 + (v15 * 283115520 + (v16 * 566231040 + (v17 * 1132462080 + (v18 * 6794772480 + (v19 * 13589544960 + (v20 * 81537269760 + (v21 * 163074539520 + (v22 * 326149079040 + (v23 * 652298158080 + (v24 * 1304596316160 + (v25 * 2609192632320 + (v26 * 5218385264640))))))))))))))))))))))))))) / 4608 % 2 = v7 := by omega
+set_option linter.unusedVariables false in
+theorem fld8 (v0 v1 v2 v3 v4 v5 v6 v7 v8 v9 v10 v11 v12 v13 v14 v15 v16 v17 v18 v19 v20 v21 v22 v23 v24 v25 v26 : Nat)
+    (h0 : v0 < 2) (h1 : v1 < 8) (h2 : v2 < 12) (h3 : v3 < 2) (h4 : v4 < 3) (h5 : v5 < 2) (h6 : v6 < 2) (h7 : v7 < 2) (h8 : v8 < 4) (h9 : v9 < 4) (h10 : v10 < 4) (h11 : v11 < 2) (h12 : v12 < 20) (h13 : v13 < 3) (h14 : v14 < 4) (h15 : v15 < 2) (h16 : v16 < 2) (h17 : v17 < 6) (h18 : v18 < 2) (h19 : v19 < 6) (h20 : v20 < 2) (h21 : v21 < 2) (h22 : v22 < 2) (h23 : v23 < 2) (h24 : v24 < 2) (h25 : v25 < 2) (h26 : v26 < 3) :
+    (v0 + (v1 * 2 + (v2 * 16 + (v3 * 192 + (v4 * 384 + (v5 * 1152 + (v6 * 2304 + (v7 * 4608 + (v8 * 9216 + (v9 * 36864 + (v10 * 147456 + (v11 * 589824 + (v12 * 1179648 + (v13 * 23592960 + (v14 * 70778880 + (v15 * 283115520 + (v16 * 566231040 + (v17 * 1132462080 + (v18 * 6794772480 + (v19 * 13589544960 + (v20 * 81537269760 + (v21 * 163074539520 + (v22 * 326149079040 + (v23 * 652298158080 + (v24 * 1304596316160 + (v25 * 2609192632320 + (v26 * 5218385264640))))))))))))))))))))))))))) / 9216 % 4 = v8 := by omega
+set_option linter.unusedVariables false in
+theorem fld9 (v0 v1 v2 v3 v4 v5 v6 v7 v8 v9 v10 v11 v12 v13 v14 v15 v16 v17 v18 v19 v20 v21 v22 v23 v24 v25 v26 : Nat)
+    (h0 : v0 < 2) (h1 : v1 < 8) (h2 : v2 < 12) (h3 : v3 < 2) (h4 : v4 < 3) (h5 : v5 < 2) (h6 : v6 < 2) (h7 : v7 < 2) (h8 : v8 < 4) (h9 : v9 < 4) (h10 : v10 < 4) (h11 : v11 < 2) (h12 : v12 < 20) (h13 : v13 < 3) (h14 : v14 < 4) (h15 : v15 < 2) (h16 : v16 < 2) (h17 : v17 < 6) (h18 : v18 < 2) (h19 : v19 < 6) (h20 : v20 < 2) (h21 : v21 < 2) (h22 : v22 < 2) (h23 : v23 < 2) (h24 : v24 < 2) (h25 : v25 < 2) (h26 : v26 < 3) :
+    (v0 + (v1 * 2 + (v2 * 16 + (v3 * 192 + (v4 * 384 + (v5 * 1152 + (v6 * 2304 + (v7 * 4608 + (v8 * 9216 + (v9 * 36864 + (v10 * 147456 + (v11 * 589824 + (v12 * 1179648 + (v13 * 23592960 + (v14 * 70778880 + (v15 * 283115520 + (v16 * 566231040 + (v17 * 1132462080 + (v18 * 6794772480 + (v19 * 13589544960 + (v20 * 81537269760 + (v21 * 163074539520 + (v22 * 326149079040 + (v23 * 652298158080 + (v24 * 1304596316160 + (v25 * 2609192632320 + (v26 * 5218385264640))))))))))))))))))))))))))) / 36864 % 4 = v9 := by omega
+set_option linter.unusedVariables false in
+theorem fld10 (v0 v1 v2 v3 v4 v5 v6 v7 v8 v9 v10 v11 v12 v13 v14 v15 v16 v17 v18 v19 v20 v21 v22 v23 v24 v25 v26 : Nat)
+    (h0 : v0 < 2) (h1 : v1 < 8) (h2 : v2 < 12) (h3 : v3 < 2) (h4 : v4 < 3) (h5 : v5 < 2) (h6 : v6 < 2) (h7 : v7 < 2) (h8 : v8 < 4) (h9 : v9 < 4) (h10 : v10 < 4) (h11 : v11 < 2) (h12 : v12 < 20) (h13 : v13 < 3) (h14 : v14 < 4) (h15 : v15 < 2) (h16 : v16 < 2) (h17 : v17 < 6) (h18 : v18 < 2) (h19 : v19 < 6) (h20 : v20 < 2) (h21 : v21 < 2) (h22 : v22 < 2) (h23 : v23 < 2) (h24 : v24 < 2) (h25 : v25 < 2) (h26 : v26 < 3) :
+    (v0 + (v1 * 2 + (v2 * 16 + (v3 * 192 + (v4 * 384 + (v5 * 1152 + (v6 * 2304 + (v7 * 4608 + (v8 * 9216 + (v9 * 36864 + (v10 * 147456 + (v11 * 589824 + (v12 * 1179648 + (v13 * 23592960 + (v14 * 70778880 + (v15 * 283115520 + (v16 * 566231040 + (v17 * 1132462080 + (v18 * 6794772480 + (v19 * 13589544960 + (v20 * 81537269760 + (v21 * 163074539520 + (v22 * 326149079040 + (v23 * 652298158080 + (v24 * 1304596316160 + (v25 * 2609192632320 + (v26 * 5218385264640))))))))))))))))))))))))))) / 147456 % 4 = v10 := by omega
+set_option linter.unusedVariables false in
+theorem fld11 (v0 v1 v2 v3 v4 v5 v6 v7 v8 v9 v10 v11 v12 v13 v14 v15 v16 v17 v18 v19 v20 v21 v22 v23 v24 v25 v26 : Nat)
+    (h0 : v0 < 2) (h1 : v1 < 8) (h2 : v2 < 12) (h3 : v3 < 2) (h4 : v4 < 3) (h5 : v5 < 2) (h6 : v6 < 2) (h7 : v7 < 2) (h8 : v8 < 4) (h9 : v9 < 4) (h10 : v10 < 4) (h11 : v11 < 2) (h12 : v12 < 20) (h13 : v13 < 3) (h14 : v14 < 4) (h15 : v15 < 2) (h16 : v16 < 2) (h17 : v17 < 6) (h18 : v18 < 2) (h19 : v19 < 6) (h20 : v20 < 2) (h21 : v21 < 2) (h22 : v22 < 2) (h23 : v23 < 2) (h24 : v24 < 2) (h25 : v25 < 2) (h26 : v26 < 3) :
+    (v0 + (v1 * 2 + (v2 * 16 + (v3 * 192 + (v4 * 384 + (v5 * 1152 + (v6 * 2304 + (v7 * 4608 + (v8 * 9216 + (v9 * 36864 + (v10 * 147456 + (v11 * 589824 + (v12 * 1179648 + (v13 * 23592960 + (v14 * 70778880 + (v15 * 283115520 + (v16 * 566231040 + (v17 * 1132462080 + (v18 * 6794772480 + (v19 * 13589544960 + (v20 * 81537269760 + (v21 * 163074539520 + (v22 * 326149079040 + (v23 * 652298158080 + (v24 * 1304596316160 + (v25 * 2609192632320 + (v26 * 5218385264640))))))))))))))))))))))))))) / 589824 % 2 = v11 := by omega
+set_option linter.unusedVariables false in
+theorem fld12 (v0 v1 v2 v3 v4 v5 v6 v7 v8 v9 v10 v11 v12 v13 v14 v15 v16 v17 v18 v19 v20 v21 v22 v23 v24 v25 v26 : Nat)
+    (h0 : v0 < 2) (h1 : v1 < 8) (h2 : v2 < 12) (h3 : v3 < 2) (h4 : v4 < 3) (h5 : v5 < 2) (h6 : v6 < 2) (h7 : v7 < 2) (h8 : v8 < 4) (h9 : v9 < 4) (h10 : v10 < 4) (h11 : v11 < 2) (h12 : v12 < 20) (h13 : v13 < 3) (h14 : v14 < 4) (h15 : v15 < 2) (h16 : v16 < 2) (h17 : v17 < 6) (h18 : v18 < 2) (h19 : v19 < 6) (h20 : v20 < 2) (h21 : v21 < 2) (h22 : v22 < 2) (h23 : v23 < 2) (h24 : v24 < 2) (h25 : v25 < 2) (h26 : v26 < 3) :
+    (v0 + (v1 * 2 + (v2 * 16 + (v3 * 192 + (v4 * 384 + (v5 * 1152 + (v6 * 2304 + (v7 * 4608 + (v8 * 9216 + (v9 * 36864 + (v10 * 147456 + (v11 * 589824 + (v12 * 1179648 + (v13 * 23592960 + (v14 * 70778880 + (v15 * 283115520 + (v16 * 566231040 + (v17 * 1132462080 + (v18 * 6794772480 + (v19 * 13589544960 + (v20 * 81537269760 + (v21 * 163074539520 + (v22 * 326149079040 + (v23 * 652298158080 + (v24 * 1304596316160 + (v25 * 2609192632320 + (v26 * 5218385264640))))))))))))))))))))))))))) / 1179648 % 20 = v12 := by omega
+set_option linter.unusedVariables false in
+theorem fld13 (v0 v1 v2 v3 v4 v5 v6 v7 v8 v9 v10 v11 v12 v13 v14 v15 v16 v17 v18 v19 v20 v21 v22 v23 v24 v25 v26 : Nat)
+    (h0 : v0 < 2) (h1 : v1 < 8) (h2 : v2 < 12) (h3 : v3 < 2) (h4 : v4 < 3) (h5 : v5 < 2) (h6 : v6 < 2) (h7 : v7 < 2) (h8 : v8 < 4) (h9 : v9 < 4) (h10 : v10 < 4) (h11 : v11 < 2) (h12 : v12 < 20) (h13 : v13 < 3) (h14 : v14 < 4) (h15 : v15 < 2) (h16 : v16 < 2) (h17 : v17 < 6) (h18 : v18 < 2) (h19 : v19 < 6) (h20 : v20 < 2) (h21 : v21 < 2) (h22 : v22 < 2) (h23 : v23 < 2) (h24 : v24 < 2) (h25 : v25 < 2) (h26 : v26 < 3) :
+    (v0 + (v1 * 2 + (v2 * 16 + (v3 * 192 + (v4 * 384 + (v5 * 1152 + (v6 * 2304 + (v7 * 4608 + (v8 * 9216 + (v9 * 36864 + (v10 * 147456 + (v11 * 589824 + (v12 * 1179648 + (v13 * 23592960 + (v14 * 70778880 + (v15 * 283115520 + (v16 * 566231040 + (v17 * 1132462080 + (v18 * 6794772480 + (v19 * 13589544960 + (v20 * 81537269760 + (v21 * 163074539520 + (v22 * 326149079040 + (v23 * 652298158080 + (v24 * 1304596316160 + (v25 * 2609192632320 + (v26 * 5218385264640))))))))))))))))))))))))))) / 23592960 % 3 = v13 := by omega
+set_option linter.unusedVariables false in
+theorem fld14 (v0 v1 v2 v3 v4 v5 v6 v7 v8 v9 v10 v11 v12 v13 v14 v15 v16 v17 v18 v19 v20 v21 v22 v23 v24 v25 v26 : Nat)
+    (h0 : v0 < 2) (h1 : v1 < 8) (h2 : v2 < 12) (h3 : v3 < 2) (h4 : v4 < 3) (h5 : v5 < 2) (h6 : v6 < 2) (h7 : v7 < 2) (h8 : v8 < 4) (h9 : v9 < 4) (h10 : v10 < 4) (h11 : v11 < 2) (h12 : v12 < 20) (h13 : v13 < 3) (h14 : v14 < 4) (h15 : v15 < 2) (h16 : v16 < 2) (h17 : v17 < 6) (h18 : v18 < 2) (h19 : v19 < 6) (h20 : v20 < 2) (h21 : v21 < 2) (h22 : v22 < 2) (h23 : v23 < 2) (h24 : v24 < 2) (h25 : v25 < 2) (h26 : v26 < 3) :
+    (v0 + (v1 * 2 + (v2 * 16 + (v3 * 192 + (v4 * 384 + (v5 * 1152 + (v6 * 2304 + (v7 * 4608 + (v8 * 9216 + (v9 * 36864 + (v10 * 147456 + (v11 * 589824 + (v12 * 1179648 + (v13 * 23592960 + (v14 * 70778880 + (v15 * 283115520 + (v16 * 566231040 + (v17 * 1132462080 + (v18 * 6794772480 + (v19 * 13589544960 + (v20 * 81537269760 + (v21 * 163074539520 + (v22 * 326149079040 + (v23 * 652298158080 + (v24 * 1304596316160 + (v25 * 2609192632320 + (v26 * 5218385264640))))))))))))))))))))))))))) / 70778880 % 4 = v14 := by omega
+set_option linter.unusedVariables false in
+theorem fld15 (v0 v1 v2 v3 v4 v5 v6 v7 v8 v9 v10 v11 v12 v13 v14 v15 v16 v17 v18 v19 v20 v21 v22 v23 v24 v25 v26 : Nat)
+    (h0 : v0 < 2) (h1 : v1 < 8) (h2 : v2 < 12) (h3 : v3 < 2) (h4 : v4 < 3) (h5 : v5 < 2) (h6 : v6 < 2) (h7 : v7 < 2) (h8 : v8 < 4) (h9 : v9 < 4) (h10 : v10 < 4) (h11 : v11 < 2) (h12 : v12 < 20) (h13 : v13 < 3) (h14 : v14 < 4) (h15 : v15 < 2) (h16 : v16 < 2) (h17 : v17 < 6) (h18 : v18 < 2) (h19 : v19 < 6) (h20 : v20 < 2) (h21 : v21 < 2) (h22 : v22 < 2) (h23 : v23 < 2) (h24 : v24 < 2) (h25 : v25 < 2) (h26 : v26 < 3) :
+    (v0 + (v1 * 2 + (v2 * 16 + (v3 * 192 + (v4 * 384 + (v5 * 1152 + (v6 * 2304 + (v7 * 4608 + (v8 * 9216 + (v9 * 36864 + (v10 * 147456 + (v11 * 589824 + (v12 * 1179648 + (v13 * 23592960 + (v14 * 70778880 + (v15 * 283115520 + (v16 * 566231040 + (v17 * 1132462080 + (v18 * 6794772480 + (v19 * 13589544960 + (v20 * 81537269760 + (v21 * 163074539520 + (v22 * 326149079040 + (v23 * 652298158080 + (v24 * 1304596316160 + (v25 * 2609192632320 + (v26 * 5218385264640))))))))))))))))))))))))))) / 283115520 % 2 = v15 := by omega
+set_option linter.unusedVariables false in
+theorem fld16 (v0 v1 v2 v3 v4 v5 v6 v7 v8 v9 v10 v11 v12 v13 v14 v15 v16 v17 v18 v19 v20 v21 v22 v23 v24 v25 v26 : Nat)
+    (h0 : v0 < 2) (h1 : v1 < 8) (h2 : v2 < 12) (h3 : v3 < 2) (h4 : v4 < 3) (h5 : v5 < 2) (h6 : v6 < 2) (h7 : v7 < 2) (h8 : v8 < 4) (h9 : v9 < 4) (h10 : v10 < 4) (h11 : v11 < 2) (h12 : v12 < 20) (h13 : v13 < 3) (h14 : v14 < 4) (h15 : v15 < 2) (h16 : v16 < 2) (h17 : v17 < 6) (h18 : v18 < 2) (h19 : v19 < 6) (h20 : v20 < 2) (h21 : v21 < 2) (h22 : v22 < 2) (h23 : v23 < 2) (h24 : v24 < 2) (h25 : v25 < 2) (h26 : v26 < 3) :
+    (v0 + (v1 * 2 + (v2 * 16 + (v3 * 192 + (v4 * 384 + (v5 * 1152 + (v6 * 2304 + (v7 * 4608 + (v8 * 9216 + (v9 * 36864 + (v10 * 147456 + (v11 * 589824 + (v12 * 1179648 + (v13 * 23592960 + (v14 * 70778880 + (v15 * 283115520 + (v16 * 566231040 + (v17 * 1132462080 + (v18 * 6794772480 + (v19 * 13589544960 + (v20 * 81537269760 + (v21 * 163074539520 + (v22 * 326149079040 + (v23 * 652298158080 + (v24 * 1304596316160 + (v25 * 2609192632320 + (v26 * 5218385264640))))))))))))))))))))))))))) / 566231040 % 2 = v16 := by omega
+set_option linter.unusedVariables false in
+theorem fld17 (v0 v1 v2 v3 v4 v5 v6 v7 v8 v9 v10 v11 v12 v13 v14 v15 v16 v17 v18 v19 v20 v21 v22 v23 v24 v25 v26 : Nat)
+    (h0 : v0 < 2) (h1 : v1 < 8) (h2 : v2 < 12) (h3 : v3 < 2) (h4 : v4 < 3) (h5 : v5 < 2) (h6 : v6 < 2) (h7 : v7 < 2) (h8 : v8 < 4) (h9 : v9 < 4) (h10 : v10 < 4) (h11 : v11 < 2) (h12 : v12 < 20) (h13 : v13 < 3) (h14 : v14 < 4) (h15 : v15 < 2) (h16 : v16 < 2) (h17 : v17 < 6) (h18 : v18 < 2) (h19 : v19 < 6) (h20 : v20 < 2) (h21 : v21 < 2) (h22 : v22 < 2) (h23 : v23 < 2) (h24 : v24 < 2) (h25 : v25 < 2) (h26 : v26 < 3) :
+    (v0 + (v1 * 2 + (v2 * 16 + (v3 * 192 + (v4 * 384 + (v5 * 1152 + (v6 * 2304 + (v7 * 4608 + (v8 * 9216 + (v9 * 36864 + (v10 * 147456 + (v11 * 589824 + (v12 * 1179648 + (v13 * 23592960 + (v14 * 70778880 + (v15 * 283115520 + (v16 * 566231040 + (v17 * 1132462080 + (v18 * 6794772480 + (v19 * 13589544960 + (v20 * 81537269760 + (v21 * 163074539520 + (v22 * 326149079040 + (v23 * 652298158080 + (v24 * 1304596316160 + (v25 * 2609192632320 + (v26 * 5218385264640))))))))))))))))))))))))))) / 1132462080 % 6 = v17 := by omega
+set_option linter.unusedVariables false in
+theorem fld18 (v0 v1 v2 v3 v4 v5 v6 v7 v8 v9 v10 v11 v12 v13 v14 v15 v16 v17 v18 v19 v20 v21 v22 v23 v24 v25 v26 : Nat)
+    (h0 : v0 < 2) (h1 : v1 < 8) (h2 : v2 < 12) (h3 : v3 < 2) (h4 : v4 < 3) (h5 : v5 < 2) (h6 : v6 < 2) (h7 : v7 < 2) (h8 : v8 < 4) (h9 : v9 < 4) (h10 : v10 < 4) (h11 : v11 < 2) (h12 : v12 < 20) (h13 : v13 < 3) (h14 : v14 < 4) (h15 : v15 < 2) (h16 : v16 < 2) (h17 : v17 < 6) (h18 : v18 < 2) (h19 : v19 < 6) (h20 : v20 < 2) (h21 : v21 < 2) (h22 : v22 < 2) (h23 : v23 < 2) (h24 : v24 < 2) (h25 : v25 < 2) (h26 : v26 < 3) :
+    (v0 + (v1 * 2 + (v2 * 16 + (v3 * 192 + (v4 * 384 + (v5 * 1152 + (v6 * 2304 + (v7 * 4608 + (v8 * 9216 + (v9 * 36864 + (v10 * 147456 + (v11 * 589824 + (v12 * 1179648 + (v13 * 23592960 + (v14 * 70778880 + (v15 * 283115520 + (v16 * 566231040 + (v17 * 1132462080 + (v18 * 6794772480 + (v19 * 13589544960 + (v20 * 81537269760 + (v21 * 163074539520 + (v22 * 326149079040 + (v23 * 652298158080 + (v24 * 1304596316160 + (v25 * 2609192632320 + (v26 * 5218385264640))))))))))))))))))))))))))) / 6794772480 % 2 = v18 := by omega
+set_option linter.unusedVariables false in
+theorem fld19 (v0 v1 v2 v3 v4 v5 v6 v7 v8 v9 v10 v11 v12 v13 v14 v15 v16 v17 v18 v19 v20 v21 v22 v23 v24 v25 v26 : Nat)
+    (h0 : v0 < 2) (h1 : v1 < 8) (h2 : v2 < 12) (h3 : v3 < 2) (h4 : v4 < 3) (h5 : v5 < 2) (h6 : v6 < 2) (h7 : v7 < 2) (h8 : v8 < 4) (h9 : v9 < 4) (h10 : v10 < 4) (h11 : v11 < 2) (h12 : v12 < 20) (h13 : v13 < 3) (h14 : v14 < 4) (h15 : v15 < 2) (h16 : v16 < 2) (h17 : v17 < 6) (h18 : v18 < 2) (h19 : v19 < 6) (h20 : v20 < 2) (h21 : v21 < 2) (h22 : v22 < 2) (h23 : v23 < 2) (h24 : v24 < 2) (h25 : v25 < 2) (h26 : v26 < 3) :
+    (v0 + (v1 * 2 + (v2 * 16 + (v3 * 192 + (v4 * 384 + (v5 * 1152 + (v6 * 2304 + (v7 * 4608 + (v8 * 9216 + (v9 * 36864 + (v10 * 147456 + (v11 * 589824 + (v12 * 1179648 + (v13 * 23592960 + (v14 * 70778880 + (v15 * 283115520 + (v16 * 566231040 + (v17 * 1132462080 + (v18 * 6794772480 + (v19 * 13589544960 + (v20 * 81537269760 + (v21 * 163074539520 + (v22 * 326149079040 + (v23 * 652298158080 + (v24 * 1304596316160 + (v25 * 2609192632320 + (v26 * 5218385264640))))))))))))))))))))))))))) / 13589544960 % 6 = v19 := by omega
+set_option linter.unusedVariables false in
+theorem fld20 (v0 v1 v2 v3 v4 v5 v6 v7 v8 v9 v10 v11 v12 v13 v14 v15 v16 v17 v18 v19 v20 v21 v22 v23 v24 v25 v26 : Nat)
+    (h0 : v0 < 2) (h1 : v1 < 8) (h2 : v2 < 12) (h3 : v3 < 2) (h4 : v4 < 3) (h5 : v5 < 2) (h6 : v6 < 2) (h7 : v7 < 2) (h8 : v8 < 4) (h9 : v9 < 4) (h10 : v10 < 4) (h11 : v11 < 2) (h12 : v12 < 20) (h13 : v13 < 3) (h14 : v14 < 4) (h15 : v15 < 2) (h16 : v16 < 2) (h17 : v17 < 6) (h18 : v18 < 2) (h19 : v19 < 6) (h20 : v20 < 2) (h21 : v21 < 2) (h22 : v22 < 2) (h23 : v23 < 2) (h24 : v24 < 2) (h25 : v25 < 2) (h26 : v26 < 3) :
+    (v0 + (v1 * 2 + (v2 * 16 + (v3 * 192 + (v4 * 384 + (v5 * 1152 + (v6 * 2304 + (v7 * 4608 + (v8 * 9216 + (v9 * 36864 + (v10 * 147456 + (v11 * 589824 + (v12 * 1179648 + (v13 * 23592960 + (v14 * 70778880 + (v15 * 283115520 + (v16 * 566231040 + (v17 * 1132462080 + (v18 * 6794772480 + (v19 * 13589544960 + (v20 * 81537269760 + (v21 * 163074539520 + (v22 * 326149079040 + (v23 * 652298158080 + (v24 * 1304596316160 + (v25 * 2609192632320 + (v26 * 5218385264640))))))))))))))))))))))))))) / 81537269760 % 2 = v20 := by omega
+set_option linter.unusedVariables false in
+theorem fld21 (v0 v1 v2 v3 v4 v5 v6 v7 v8 v9 v10 v11 v12 v13 v14 v15 v16 v17 v18 v19 v20 v21 v22 v23 v24 v25 v26 : Nat)
+    (h0 : v0 < 2) (h1 : v1 < 8) (h2 : v2 < 12) (h3 : v3 < 2) (h4 : v4 < 3) (h5 : v5 < 2) (h6 : v6 < 2) (h7 : v7 < 2) (h8 : v8 < 4) (h9 : v9 < 4) (h10 : v10 < 4) (h11 : v11 < 2) (h12 : v12 < 20) (h13 : v13 < 3) (h14 : v14 < 4) (h15 : v15 < 2) (h16 : v16 < 2) (h17 : v17 < 6) (h18 : v18 < 2) (h19 : v19 < 6) (h20 : v20 < 2) (h21 : v21 < 2) (h22 : v22 < 2) (h23 : v23 < 2) (h24 : v24 < 2) (h25 : v25 < 2) (h26 : v26 < 3) :
+    (v0 + (v1 * 2 + (v2 * 16 + (v3 * 192 + (v4 * 384 + (v5 * 1152 + (v6 * 2304 + (v7 * 4608 + (v8 * 9216 + (v9 * 36864 + (v10 * 147456 + (v11 * 589824 + (v12 * 1179648 + (v13 * 23592960 + (v14 * 70778880 + (v15 * 283115520 + (v16 * 566231040 + (v17 * 1132462080 + (v18 * 6794772480 + (v19 * 13589544960 + (v20 * 81537269760 + (v21 * 163074539520 + (v22 * 326149079040 + (v23 * 652298158080 + (v24 * 1304596316160 + (v25 * 2609192632320 + (v26 * 5218385264640))))))))))))))))))))))))))) / 163074539520 % 2 = v21 := by omega
+set_option linter.unusedVariables false in
+theorem fld22 (v0 v1 v2 v3 v4 v5 v6 v7 v8 v9 v10 v11 v12 v13 v14 v15 v16 v17 v18 v19 v20 v21 v22 v23 v24 v25 v26 : Nat)
+    (h0 : v0 < 2) (h1 : v1 < 8) (h2 : v2 < 12) (h3 : v3 < 2) (h4 : v4 < 3) (h5 : v5 < 2) (h6 : v6 < 2) (h7 : v7 < 2) (h8 : v8 < 4) (h9 : v9 < 4) (h10 : v10 < 4) (h11 : v11 < 2) (h12 : v12 < 20) (h13 : v13 < 3) (h14 : v14 < 4) (h15 : v15 < 2) (h16 : v16 < 2) (h17 : v17 < 6) (h18 : v18 < 2) (h19 : v19 < 6) (h20 : v20 < 2) (h21 : v21 < 2) (h22 : v22 < 2) (h23 : v23 < 2) (h24 : v24 < 2) (h25 : v25 < 2) (h26 : v26 < 3) :
+    (v0 + (v1 * 2 + (v2 * 16 + (v3 * 192 + (v4 * 384 + (v5 * 1152 + (v6 * 2304 + (v7 * 4608 + (v8 * 9216 + (v9 * 36864 + (v10 * 147456 + (v11 * 589824 + (v12 * 1179648 + (v13 * 23592960 + (v14 * 70778880 + (v15 * 283115520 + (v16 * 566231040 + (v17 * 1132462080 + (v18 * 6794772480 + (v19 * 13589544960 + (v20 * 81537269760 + (v21 * 163074539520 + (v22 * 326149079040 + (v23 * 652298158080 + (v24 * 1304596316160 + (v25 * 2609192632320 + (v26 * 5218385264640))))))))))))))))))))))))))) / 326149079040 % 2 = v22 := by omega
+set_option linter.unusedVariables false in
+theorem fld23 (v0 v1 v2 v3 v4 v5 v6 v7 v8 v9 v10 v11 v12 v13 v14 v15 v16 v17 v18 v19 v20 v21 v22 v23 v24 v25 v26 : Nat)
+    (h0 : v0 < 2) (h1 : v1 < 8) (h2 : v2 < 12) (h3 : v3 < 2) (h4 : v4 < 3) (h5 : v5 < 2) (h6 : v6 < 2) (h7 : v7 < 2) (h8 : v8 < 4) (h9 : v9 < 4) (h10 : v10 < 4) (h11 : v11 < 2) (h12 : v12 < 20) (h13 : v13 < 3) (h14 : v14 < 4) (h15 : v15 < 2) (h16 : v16 < 2) (h17 : v17 < 6) (h18 : v18 < 2) (h19 : v19 < 6) (h20 : v20 < 2) (h21 : v21 < 2) (h22 : v22 < 2) (h23 : v23 < 2) (h24 : v24 < 2) (h25 : v25 < 2) (h26 : v26 < 3) :
+    (v0 + (v1 * 2 + (v2 * 16 + (v3 * 192 + (v4 * 384 + (v5 * 1152 + (v6 * 2304 + (v7 * 4608 + (v8 * 9216 + (v9 * 36864 + (v10 * 147456 + (v11 * 589824 + (v12 * 1179648 + (v13 * 23592960 + (v14 * 70778880 + (v15 * 283115520 + (v16 * 566231040 + (v17 * 1132462080 + (v18 * 6794772480 + (v19 * 13589544960 + (v20 * 81537269760 + (v21 * 163074539520 + (v22 * 326149079040 + (v23 * 652298158080 + (v24 * 1304596316160 + (v25 * 2609192632320 + (v26 * 5218385264640))))))))))))))))))))))))))) / 652298158080 % 2 = v23 := by omega
+set_option linter.unusedVariables false in
+theorem fld24 (v0 v1 v2 v3 v4 v5 v6 v7 v8 v9 v10 v11 v12 v13 v14 v15 v16 v17 v18 v19 v20 v21 v22 v23 v24 v25 v26 : Nat)
+    (h0 : v0 < 2) (h1 : v1 < 8) (h2 : v2 < 12) (h3 : v3 < 2) (h4 : v4 < 3) (h5 : v5 < 2) (h6 : v6 < 2) (h7 : v7 < 2) (h8 : v8 < 4) (h9 : v9 < 4) (h10 : v10 < 4) (h11 : v11 < 2) (h12 : v12 < 20) (h13 : v13 < 3) (h14 : v14 < 4) (h15 : v15 < 2) (h16 : v16 < 2) (h17 : v17 < 6) (h18 : v18 < 2) (h19 : v19 < 6) (h20 : v20 < 2) (h21 : v21 < 2) (h22 : v22 < 2) (h23 : v23 < 2) (h24 : v24 < 2) (h25 : v25 < 2) (h26 : v26 < 3) :
+    (v0 + (v1 * 2 + (v2 * 16 + (v3 * 192 + (v4 * 384 + (v5 * 1152 + (v6 * 2304 + (v7 * 4608 + (v8 * 9216 + (v9 * 36864 + (v10 * 147456 + (v11 * 589824 + (v12 * 1179648 + (v13 * 23592960 + (v14 * 70778880 + (v15 * 283115520 + (v16 * 566231040 + (v17 * 1132462080 + (v18 * 6794772480 + (v19 * 13589544960 + (v20 * 81537269760 + (v21 * 163074539520 + (v22 * 326149079040 + (v23 * 652298158080 + (v24 * 1304596316160 + (v25 * 2609192632320 + (v26 * 5218385264640))))))))))))))))))))))))))) / 1304596316160 % 2 = v24 := by omega
+set_option linter.unusedVariables false in
+theorem fld25 (v0 v1 v2 v3 v4 v5 v6 v7 v8 v9 v10 v11 v12 v13 v14 v15 v16 v17 v18 v19 v20 v21 v22 v23 v24 v25 v26 : Nat)
+    (h0 : v0 < 2) (h1 : v1 < 8) (h2 : v2 < 12) (h3 : v3 < 2) (h4 : v4 < 3) (h5 : v5 < 2) (h6 : v6 < 2) (h7 : v7 < 2) (h8 : v8 < 4) (h9 : v9 < 4) (h10 : v10 < 4) (h11 : v11 < 2) (h12 : v12 < 20) (h13 : v13 < 3) (h14 : v14 < 4) (h15 : v15 < 2) (h16 : v16 < 2) (h17 : v17 < 6) (h18 : v18 < 2) (h19 : v19 < 6) (h20 : v20 < 2) (h21 : v21 < 2) (h22 : v22 < 2) (h23 : v23 < 2) (h24 : v24 < 2) (h25 : v25 < 2) (h26 : v26 < 3) :
+    (v0 + (v1 * 2 + (v2 * 16 + (v3 * 192 + (v4 * 384 + (v5 * 1152 + (v6 * 2304 + (v7 * 4608 + (v8 * 9216 + (v9 * 36864 + (v10 * 147456 + (v11 * 589824 + (v12 * 1179648 + (v13 * 23592960 + (v14 * 70778880 + (v15 * 283115520 + (v16 * 566231040 + (v17 * 1132462080 + (v18 * 6794772480 + (v19 * 13589544960 + (v20 * 81537269760 + (v21 * 163074539520 + (v22 * 326149079040 + (v23 * 652298158080 + (v24 * 1304596316160 + (v25 * 2609192632320 + (v26 * 5218385264640))))))))))))))))))))))))))) / 2609192632320 % 2 = v25 := by omega
+set_option linter.unusedVariables false in
+theorem fld26 (v0 v1 v2 v3 v4 v5 v6 v7 v8 v9 v10 v11 v12 v13 v14 v15 v16 v17 v18 v19 v20 v21 v22 v23 v24 v25 v26 : Nat)
+    (h0 : v0 < 2) (h1 : v1 < 8) (h2 : v2 < 12) (h3 : v3 < 2) (h4 : v4 < 3) (h5 : v5 < 2) (h6 : v6 < 2) (h7 : v7 < 2) (h8 : v8 < 4) (h9 : v9 < 4) (h10 : v10 < 4) (h11 : v11 < 2) (h12 : v12 < 20) (h13 : v13 < 3) (h14 : v14 < 4) (h15 : v15 < 2) (h16 : v16 < 2) (h17 : v17 < 6) (h18 : v18 < 2) (h19 : v19 < 6) (h20 : v20 < 2) (h21 : v21 < 2) (h22 : v22 < 2) (h23 : v23 < 2) (h24 : v24 < 2) (h25 : v25 < 2) (h26 : v26 < 3) :
+    (v0 + (v1 * 2 + (v2 * 16 + (v3 * 192 + (v4 * 384 + (v5 * 1152 + (v6 * 2304 + (v7 * 4608 + (v8 * 9216 + (v9 * 36864 + (v10 * 147456 + (v11 * 589824 + (v12 * 1179648 + (v13 * 23592960 + (v14 * 70778880 + (v15 * 283115520 + (v16 * 566231040 + (v17 * 1132462080 + (v18 * 6794772480 + (v19 * 13589544960 + (v20 * 81537269760 + (v21 * 163074539520 + (v22 * 326149079040 + (v23 * 652298158080 + (v24 * 1304596316160 + (v25 * 2609192632320 + (v26 * 5218385264640))))))))))))))))))))))))))) / 5218385264640 % 3 = v26 := by omega
+
+theorem roundtrip (s : St) (h : wf s = true) : decode (code s) = s := by
+  obtain ⟨has, rp, wp, closed, cause, txNil, txClosed, netClosed, errCh, pend, infl, tainted, kp, kres, retry, kctx, cclosed, cp, cref, ntx, clean, born, raced, stale, reused, overflow, panic⟩ := s
+  simp only [wf, Bool.and_eq_true, Nat.blt_eq] at h
+  obtain ⟨⟨⟨⟨⟨⟨⟨h_cause, h_errCh⟩, h_pend⟩, h_infl⟩, h_kres⟩, h_retry⟩, h_ntx⟩, h_panic⟩ := h
+  unfold decode code
+  rw [St.mk.injEq]
+  simp only [Nat.add_eq, Nat.mul_eq, nat_div_eq, nat_mod_eq]
+  refine ⟨?_, ?_, ?_, ?_, ?_, ?_, ?_, ?_, ?_, ?_, ?_, ?_, ?_, ?_, ?_, ?_, ?_, ?_, ?_, ?_, ?_, ?_, ?_, ?_, ?_, ?_, ?_⟩
+  · rw [fld0 (has.toNat) (rp.toN) (wp.toN) (closed.toNat) cause (txNil.toNat) (txClosed.toNat) (netClosed.toNat) errCh pend infl (tainted.toNat) (kp.toN) kres retry (kctx.toNat) (cclosed.toNat) (cp.toN) (cref.toNat) ntx (clean.toNat) (born.toNat) (raced.toNat) (stale.toNat) (reused.toNat) (overflow.toNat) panic
+      (toNat_lt2 has) (RP.toN_lt rp) (WP.toN_lt wp) (toNat_lt2 closed) h_cause (toNat_lt2 txNil) (toNat_lt2 txClosed) (toNat_lt2 netClosed) h_errCh h_pend h_infl (toNat_lt2 tainted) (KP.toN_lt kp) h_kres h_retry (toNat_lt2 kctx) (toNat_lt2 cclosed) (CP.toN_lt cp) (toNat_lt2 cref) h_ntx (toNat_lt2 clean) (toNat_lt2 born) (toNat_lt2 raced) (toNat_lt2 stale) (toNat_lt2 reused) (toNat_lt2 overflow) h_panic]; cases has <;> rfl
+  · rw [fld1 (has.toNat) (rp.toN) (wp.toN) (closed.toNat) cause (txNil.toNat) (txClosed.toNat) (netClosed.toNat) errCh pend infl (tainted.toNat) (kp.toN) kres retry (kctx.toNat) (cclosed.toNat) (cp.toN) (cref.toNat) ntx (clean.toNat) (born.toNat) (raced.toNat) (stale.toNat) (reused.toNat) (overflow.toNat) panic
+      (toNat_lt2 has) (RP.toN_lt rp) (WP.toN_lt wp) (toNat_lt2 closed) h_cause (toNat_lt2 txNil) (toNat_lt2 txClosed) (toNat_lt2 netClosed) h_errCh h_pend h_infl (toNat_lt2 tainted) (KP.toN_lt kp) h_kres h_retry (toNat_lt2 kctx) (toNat_lt2 cclosed) (CP.toN_lt cp) (toNat_lt2 cref) h_ntx (toNat_lt2 clean) (toNat_lt2 born) (toNat_lt2 raced) (toNat_lt2 stale) (toNat_lt2 reused) (toNat_lt2 overflow) h_panic]; exact RP.ofN_toN rp
+  · rw [fld2 (has.toNat) (rp.toN) (wp.toN) (closed.toNat) cause (txNil.toNat) (txClosed.toNat) (netClosed.toNat) errCh pend infl (tainted.toNat) (kp.toN) kres retry (kctx.toNat) (cclosed.toNat) (cp.toN) (cref.toNat) ntx (clean.toNat) (born.toNat) (raced.toNat) (stale.toNat) (reused.toNat) (overflow.toNat) panic
+      (toNat_lt2 has) (RP.toN_lt rp) (WP.toN_lt wp) (toNat_lt2 closed) h_cause (toNat_lt2 txNil) (toNat_lt2 txClosed) (toNat_lt2 netClosed) h_errCh h_pend h_infl (toNat_lt2 tainted) (KP.toN_lt kp) h_kres h_retry (toNat_lt2 kctx) (toNat_lt2 cclosed) (CP.toN_lt cp) (toNat_lt2 cref) h_ntx (toNat_lt2 clean) (toNat_lt2 born) (toNat_lt2 raced) (toNat_lt2 stale) (toNat_lt2 reused) (toNat_lt2 overflow) h_panic]; exact WP.ofN_toN wp
+  · rw [fld3 (has.toNat) (rp.toN) (wp.toN) (closed.toNat) cause (txNil.toNat) (txClosed.toNat) (netClosed.toNat) errCh pend infl (tainted.toNat) (kp.toN) kres retry (kctx.toNat) (cclosed.toNat) (cp.toN) (cref.toNat) ntx (clean.toNat) (born.toNat) (raced.toNat) (stale.toNat) (reused.toNat) (overflow.toNat) panic
+      (toNat_lt2 has) (RP.toN_lt rp) (WP.toN_lt wp) (toNat_lt2 closed) h_cause (toNat_lt2 txNil) (toNat_lt2 txClosed) (toNat_lt2 netClosed) h_errCh h_pend h_infl (toNat_lt2 tainted) (KP.toN_lt kp) h_kres h_retry (toNat_lt2 kctx) (toNat_lt2 cclosed) (CP.toN_lt cp) (toNat_lt2 cref) h_ntx (toNat_lt2 clean) (toNat_lt2 born) (toNat_lt2 raced) (toNat_lt2 stale) (toNat_lt2 reused) (toNat_lt2 overflow) h_panic]; cases closed <;> rfl
+  · exact fld4 (has.toNat) (rp.toN) (wp.toN) (closed.toNat) cause (txNil.toNat) (txClosed.toNat) (netClosed.toNat) errCh pend infl (tainted.toNat) (kp.toN) kres retry (kctx.toNat) (cclosed.toNat) (cp.toN) (cref.toNat) ntx (clean.toNat) (born.toNat) (raced.toNat) (stale.toNat) (reused.toNat) (overflow.toNat) panic
+      (toNat_lt2 has) (RP.toN_lt rp) (WP.toN_lt wp) (toNat_lt2 closed) h_cause (toNat_lt2 txNil) (toNat_lt2 txClosed) (toNat_lt2 netClosed) h_errCh h_pend h_infl (toNat_lt2 tainted) (KP.toN_lt kp) h_kres h_retry (toNat_lt2 kctx) (toNat_lt2 cclosed) (CP.toN_lt cp) (toNat_lt2 cref) h_ntx (toNat_lt2 clean) (toNat_lt2 born) (toNat_lt2 raced) (toNat_lt2 stale) (toNat_lt2 reused) (toNat_lt2 overflow) h_panic
+  · rw [fld5 (has.toNat) (rp.toN) (wp.toN) (closed.toNat) cause (txNil.toNat) (txClosed.toNat) (netClosed.toNat) errCh pend infl (tainted.toNat) (kp.toN) kres retry (kctx.toNat) (cclosed.toNat) (cp.toN) (cref.toNat) ntx (clean.toNat) (born.toNat) (raced.toNat) (stale.toNat) (reused.toNat) (overflow.toNat) panic
+      (toNat_lt2 has) (RP.toN_lt rp) (WP.toN_lt wp) (toNat_lt2 closed) h_cause (toNat_lt2 txNil) (toNat_lt2 txClosed) (toNat_lt2 netClosed) h_errCh h_pend h_infl (toNat_lt2 tainted) (KP.toN_lt kp) h_kres h_retry (toNat_lt2 kctx) (toNat_lt2 cclosed) (CP.toN_lt cp) (toNat_lt2 cref) h_ntx (toNat_lt2 clean) (toNat_lt2 born) (toNat_lt2 raced) (toNat_lt2 stale) (toNat_lt2 reused) (toNat_lt2 overflow) h_panic]; cases txNil <;> rfl
+  · rw [fld6 (has.toNat) (rp.toN) (wp.toN) (closed.toNat) cause (txNil.toNat) (txClosed.toNat) (netClosed.toNat) errCh pend infl (tainted.toNat) (kp.toN) kres retry (kctx.toNat) (cclosed.toNat) (cp.toN) (cref.toNat) ntx (clean.toNat) (born.toNat) (raced.toNat) (stale.toNat) (reused.toNat) (overflow.toNat) panic
+      (toNat_lt2 has) (RP.toN_lt rp) (WP.toN_lt wp) (toNat_lt2 closed) h_cause (toNat_lt2 txNil) (toNat_lt2 txClosed) (toNat_lt2 netClosed) h_errCh h_pend h_infl (toNat_lt2 tainted) (KP.toN_lt kp) h_kres h_retry (toNat_lt2 kctx) (toNat_lt2 cclosed) (CP.toN_lt cp) (toNat_lt2 cref) h_ntx (toNat_lt2 clean) (toNat_lt2 born) (toNat_lt2 raced) (toNat_lt2 stale) (toNat_lt2 reused) (toNat_lt2 overflow) h_panic]; cases txClosed <;> rfl
+  · rw [fld7 (has.toNat) (rp.toN) (wp.toN) (closed.toNat) cause (txNil.toNat) (txClosed.toNat) (netClosed.toNat) errCh pend infl (tainted.toNat) (kp.toN) kres retry (kctx.toNat) (cclosed.toNat) (cp.toN) (cref.toNat) ntx (clean.toNat) (born.toNat) (raced.toNat) (stale.toNat) (reused.toNat) (overflow.toNat) panic
+      (toNat_lt2 has) (RP.toN_lt rp) (WP.toN_lt wp) (toNat_lt2 closed) h_cause (toNat_lt2 txNil) (toNat_lt2 txClosed) (toNat_lt2 netClosed) h_errCh h_pend h_infl (toNat_lt2 tainted) (KP.toN_lt kp) h_kres h_retry (toNat_lt2 kctx) (toNat_lt2 cclosed) (CP.toN_lt cp) (toNat_lt2 cref) h_ntx (toNat_lt2 clean) (toNat_lt2 born) (toNat_lt2 raced) (toNat_lt2 stale) (toNat_lt2 reused) (toNat_lt2 overflow) h_panic]; cases netClosed <;> rfl
+  · exact fld8 (has.toNat) (rp.toN) (wp.toN) (closed.toNat) cause (txNil.toNat) (txClosed.toNat) (netClosed.toNat) errCh pend infl (tainted.toNat) (kp.toN) kres retry (kctx.toNat) (cclosed.toNat) (cp.toN) (cref.toNat) ntx (clean.toNat) (born.toNat) (raced.toNat) (stale.toNat) (reused.toNat) (overflow.toNat) panic
+      (toNat_lt2 has) (RP.toN_lt rp) (WP.toN_lt wp) (toNat_lt2 closed) h_cause (toNat_lt2 txNil) (toNat_lt2 txClosed) (toNat_lt2 netClosed) h_errCh h_pend h_infl (toNat_lt2 tainted) (KP.toN_lt kp) h_kres h_retry (toNat_lt2 kctx) (toNat_lt2 cclosed) (CP.toN_lt cp) (toNat_lt2 cref) h_ntx (toNat_lt2 clean) (toNat_lt2 born) (toNat_lt2 raced) (toNat_lt2 stale) (toNat_lt2 reused) (toNat_lt2 overflow) h_panic
+  · exact fld9 (has.toNat) (rp.toN) (wp.toN) (closed.toNat) cause (txNil.toNat) (txClosed.toNat) (netClosed.toNat) errCh pend infl (tainted.toNat) (kp.toN) kres retry (kctx.toNat) (cclosed.toNat) (cp.toN) (cref.toNat) ntx (clean.toNat) (born.toNat) (raced.toNat) (stale.toNat) (reused.toNat) (overflow.toNat) panic
+      (toNat_lt2 has) (RP.toN_lt rp) (WP.toN_lt wp) (toNat_lt2 closed) h_cause (toNat_lt2 txNil) (toNat_lt2 txClosed) (toNat_lt2 netClosed) h_errCh h_pend h_infl (toNat_lt2 tainted) (KP.toN_lt kp) h_kres h_retry (toNat_lt2 kctx) (toNat_lt2 cclosed) (CP.toN_lt cp) (toNat_lt2 cref) h_ntx (toNat_lt2 clean) (toNat_lt2 born) (toNat_lt2 raced) (toNat_lt2 stale) (toNat_lt2 reused) (toNat_lt2 overflow) h_panic
+  · exact fld10 (has.toNat) (rp.toN) (wp.toN) (closed.toNat) cause (txNil.toNat) (txClosed.toNat) (netClosed.toNat) errCh pend infl (tainted.toNat) (kp.toN) kres retry (kctx.toNat) (cclosed.toNat) (cp.toN) (cref.toNat) ntx (clean.toNat) (born.toNat) (raced.toNat) (stale.toNat) (reused.toNat) (overflow.toNat) panic
+      (toNat_lt2 has) (RP.toN_lt rp) (WP.toN_lt wp) (toNat_lt2 closed) h_cause (toNat_lt2 txNil) (toNat_lt2 txClosed) (toNat_lt2 netClosed) h_errCh h_pend h_infl (toNat_lt2 tainted) (KP.toN_lt kp) h_kres h_retry (toNat_lt2 kctx) (toNat_lt2 cclosed) (CP.toN_lt cp) (toNat_lt2 cref) h_ntx (toNat_lt2 clean) (toNat_lt2 born) (toNat_lt2 raced) (toNat_lt2 stale) (toNat_lt2 reused) (toNat_lt2 overflow) h_panic
+  · rw [fld11 (has.toNat) (rp.toN) (wp.toN) (closed.toNat) cause (txNil.toNat) (txClosed.toNat) (netClosed.toNat) errCh pend infl (tainted.toNat) (kp.toN) kres retry (kctx.toNat) (cclosed.toNat) (cp.toN) (cref.toNat) ntx (clean.toNat) (born.toNat) (raced.toNat) (stale.toNat) (reused.toNat) (overflow.toNat) panic
+      (toNat_lt2 has) (RP.toN_lt rp) (WP.toN_lt wp) (toNat_lt2 closed) h_cause (toNat_lt2 txNil) (toNat_lt2 txClosed) (toNat_lt2 netClosed) h_errCh h_pend h_infl (toNat_lt2 tainted) (KP.toN_lt kp) h_kres h_retry (toNat_lt2 kctx) (toNat_lt2 cclosed) (CP.toN_lt cp) (toNat_lt2 cref) h_ntx (toNat_lt2 clean) (toNat_lt2 born) (toNat_lt2 raced) (toNat_lt2 stale) (toNat_lt2 reused) (toNat_lt2 overflow) h_panic]; cases tainted <;> rfl
+  · rw [fld12 (has.toNat) (rp.toN) (wp.toN) (closed.toNat) cause (txNil.toNat) (txClosed.toNat) (netClosed.toNat) errCh pend infl (tainted.toNat) (kp.toN) kres retry (kctx.toNat) (cclosed.toNat) (cp.toN) (cref.toNat) ntx (clean.toNat) (born.toNat) (raced.toNat) (stale.toNat) (reused.toNat) (overflow.toNat) panic
+      (toNat_lt2 has) (RP.toN_lt rp) (WP.toN_lt wp) (toNat_lt2 closed) h_cause (toNat_lt2 txNil) (toNat_lt2 txClosed) (toNat_lt2 netClosed) h_errCh h_pend h_infl (toNat_lt2 tainted) (KP.toN_lt kp) h_kres h_retry (toNat_lt2 kctx) (toNat_lt2 cclosed) (CP.toN_lt cp) (toNat_lt2 cref) h_ntx (toNat_lt2 clean) (toNat_lt2 born) (toNat_lt2 raced) (toNat_lt2 stale) (toNat_lt2 reused) (toNat_lt2 overflow) h_panic]; exact KP.ofN_toN kp
+  · exact fld13 (has.toNat) (rp.toN) (wp.toN) (closed.toNat) cause (txNil.toNat) (txClosed.toNat) (netClosed.toNat) errCh pend infl (tainted.toNat) (kp.toN) kres retry (kctx.toNat) (cclosed.toNat) (cp.toN) (cref.toNat) ntx (clean.toNat) (born.toNat) (raced.toNat) (stale.toNat) (reused.toNat) (overflow.toNat) panic
+      (toNat_lt2 has) (RP.toN_lt rp) (WP.toN_lt wp) (toNat_lt2 closed) h_cause (toNat_lt2 txNil) (toNat_lt2 txClosed) (toNat_lt2 netClosed) h_errCh h_pend h_infl (toNat_lt2 tainted) (KP.toN_lt kp) h_kres h_retry (toNat_lt2 kctx) (toNat_lt2 cclosed) (CP.toN_lt cp) (toNat_lt2 cref) h_ntx (toNat_lt2 clean) (toNat_lt2 born) (toNat_lt2 raced) (toNat_lt2 stale) (toNat_lt2 reused) (toNat_lt2 overflow) h_panic
+  · exact fld14 (has.toNat) (rp.toN) (wp.toN) (closed.toNat) cause (txNil.toNat) (txClosed.toNat) (netClosed.toNat) errCh pend infl (tainted.toNat) (kp.toN) kres retry (kctx.toNat) (cclosed.toNat) (cp.toN) (cref.toNat) ntx (clean.toNat) (born.toNat) (raced.toNat) (stale.toNat) (reused.toNat) (overflow.toNat) panic
+      (toNat_lt2 has) (RP.toN_lt rp) (WP.toN_lt wp) (toNat_lt2 closed) h_cause (toNat_lt2 txNil) (toNat_lt2 txClosed) (toNat_lt2 netClosed) h_errCh h_pend h_infl (toNat_lt2 tainted) (KP.toN_lt kp) h_kres h_retry (toNat_lt2 kctx) (toNat_lt2 cclosed) (CP.toN_lt cp) (toNat_lt2 cref) h_ntx (toNat_lt2 clean) (toNat_lt2 born) (toNat_lt2 raced) (toNat_lt2 stale) (toNat_lt2 reused) (toNat_lt2 overflow) h_panic
+  · rw [fld15 (has.toNat) (rp.toN) (wp.toN) (closed.toNat) cause (txNil.toNat) (txClosed.toNat) (netClosed.toNat) errCh pend infl (tainted.toNat) (kp.toN) kres retry (kctx.toNat) (cclosed.toNat) (cp.toN) (cref.toNat) ntx (clean.toNat) (born.toNat) (raced.toNat) (stale.toNat) (reused.toNat) (overflow.toNat) panic
+      (toNat_lt2 has) (RP.toN_lt rp) (WP.toN_lt wp) (toNat_lt2 closed) h_cause (toNat_lt2 txNil) (toNat_lt2 txClosed) (toNat_lt2 netClosed) h_errCh h_pend h_infl (toNat_lt2 tainted) (KP.toN_lt kp) h_kres h_retry (toNat_lt2 kctx) (toNat_lt2 cclosed) (CP.toN_lt cp) (toNat_lt2 cref) h_ntx (toNat_lt2 clean) (toNat_lt2 born) (toNat_lt2 raced) (toNat_lt2 stale) (toNat_lt2 reused) (toNat_lt2 overflow) h_panic]; cases kctx <;> rfl
+  · rw [fld16 (has.toNat) (rp.toN) (wp.toN) (closed.toNat) cause (txNil.toNat) (txClosed.toNat) (netClosed.toNat) errCh pend infl (tainted.toNat) (kp.toN) kres retry (kctx.toNat) (cclosed.toNat) (cp.toN) (cref.toNat) ntx (clean.toNat) (born.toNat) (raced.toNat) (stale.toNat) (reused.toNat) (overflow.toNat) panic
+      (toNat_lt2 has) (RP.toN_lt rp) (WP.toN_lt wp) (toNat_lt2 closed) h_cause (toNat_lt2 txNil) (toNat_lt2 txClosed) (toNat_lt2 netClosed) h_errCh h_pend h_infl (toNat_lt2 tainted) (KP.toN_lt kp) h_kres h_retry (toNat_lt2 kctx) (toNat_lt2 cclosed) (CP.toN_lt cp) (toNat_lt2 cref) h_ntx (toNat_lt2 clean) (toNat_lt2 born) (toNat_lt2 raced) (toNat_lt2 stale) (toNat_lt2 reused) (toNat_lt2 overflow) h_panic]; cases cclosed <;> rfl
+  · rw [fld17 (has.toNat) (rp.toN) (wp.toN) (closed.toNat) cause (txNil.toNat) (txClosed.toNat) (netClosed.toNat) errCh pend infl (tainted.toNat) (kp.toN) kres retry (kctx.toNat) (cclosed.toNat) (cp.toN) (cref.toNat) ntx (clean.toNat) (born.toNat) (raced.toNat) (stale.toNat) (reused.toNat) (overflow.toNat) panic
+      (toNat_lt2 has) (RP.toN_lt rp) (WP.toN_lt wp) (toNat_lt2 closed) h_cause (toNat_lt2 txNil) (toNat_lt2 txClosed) (toNat_lt2 netClosed) h_errCh h_pend h_infl (toNat_lt2 tainted) (KP.toN_lt kp) h_kres h_retry (toNat_lt2 kctx) (toNat_lt2 cclosed) (CP.toN_lt cp) (toNat_lt2 cref) h_ntx (toNat_lt2 clean) (toNat_lt2 born) (toNat_lt2 raced) (toNat_lt2 stale) (toNat_lt2 reused) (toNat_lt2 overflow) h_panic]; exact CP.ofN_toN cp
+  · rw [fld18 (has.toNat) (rp.toN) (wp.toN) (closed.toNat) cause (txNil.toNat) (txClosed.toNat) (netClosed.toNat) errCh pend infl (tainted.toNat) (kp.toN) kres retry (kctx.toNat) (cclosed.toNat) (cp.toN) (cref.toNat) ntx (clean.toNat) (born.toNat) (raced.toNat) (stale.toNat) (reused.toNat) (overflow.toNat) panic
+      (toNat_lt2 has) (RP.toN_lt rp) (WP.toN_lt wp) (toNat_lt2 closed) h_cause (toNat_lt2 txNil) (toNat_lt2 txClosed) (toNat_lt2 netClosed) h_errCh h_pend h_infl (toNat_lt2 tainted) (KP.toN_lt kp) h_kres h_retry (toNat_lt2 kctx) (toNat_lt2 cclosed) (CP.toN_lt cp) (toNat_lt2 cref) h_ntx (toNat_lt2 clean) (toNat_lt2 born) (toNat_lt2 raced) (toNat_lt2 stale) (toNat_lt2 reused) (toNat_lt2 overflow) h_panic]; cases cref <;> rfl
+  · exact fld19 (has.toNat) (rp.toN) (wp.toN) (closed.toNat) cause (txNil.toNat) (txClosed.toNat) (netClosed.toNat) errCh pend infl (tainted.toNat) (kp.toN) kres retry (kctx.toNat) (cclosed.toNat) (cp.toN) (cref.toNat) ntx (clean.toNat) (born.toNat) (raced.toNat) (stale.toNat) (reused.toNat) (overflow.toNat) panic
+      (toNat_lt2 has) (RP.toN_lt rp) (WP.toN_lt wp) (toNat_lt2 closed) h_cause (toNat_lt2 txNil) (toNat_lt2 txClosed) (toNat_lt2 netClosed) h_errCh h_pend h_infl (toNat_lt2 tainted) (KP.toN_lt kp) h_kres h_retry (toNat_lt2 kctx) (toNat_lt2 cclosed) (CP.toN_lt cp) (toNat_lt2 cref) h_ntx (toNat_lt2 clean) (toNat_lt2 born) (toNat_lt2 raced) (toNat_lt2 stale) (toNat_lt2 reused) (toNat_lt2 overflow) h_panic
+  · rw [fld20 (has.toNat) (rp.toN) (wp.toN) (closed.toNat) cause (txNil.toNat) (txClosed.toNat) (netClosed.toNat) errCh pend infl (tainted.toNat) (kp.toN) kres retry (kctx.toNat) (cclosed.toNat) (cp.toN) (cref.toNat) ntx (clean.toNat) (born.toNat) (raced.toNat) (stale.toNat) (reused.toNat) (overflow.toNat) panic
+      (toNat_lt2 has) (RP.toN_lt rp) (WP.toN_lt wp) (toNat_lt2 closed) h_cause (toNat_lt2 txNil) (toNat_lt2 txClosed) (toNat_lt2 netClosed) h_errCh h_pend h_infl (toNat_lt2 tainted) (KP.toN_lt kp) h_kres h_retry (toNat_lt2 kctx) (toNat_lt2 cclosed) (CP.toN_lt cp) (toNat_lt2 cref) h_ntx (toNat_lt2 clean) (toNat_lt2 born) (toNat_lt2 raced) (toNat_lt2 stale) (toNat_lt2 reused) (toNat_lt2 overflow) h_panic]; cases clean <;> rfl
+  · rw [fld21 (has.toNat) (rp.toN) (wp.toN) (closed.toNat) cause (txNil.toNat) (txClosed.toNat) (netClosed.toNat) errCh pend infl (tainted.toNat) (kp.toN) kres retry (kctx.toNat) (cclosed.toNat) (cp.toN) (cref.toNat) ntx (clean.toNat) (born.toNat) (raced.toNat) (stale.toNat) (reused.toNat) (overflow.toNat) panic
+      (toNat_lt2 has) (RP.toN_lt rp) (WP.toN_lt wp) (toNat_lt2 closed) h_cause (toNat_lt2 txNil) (toNat_lt2 txClosed) (toNat_lt2 netClosed) h_errCh h_pend h_infl (toNat_lt2 tainted) (KP.toN_lt kp) h_kres h_retry (toNat_lt2 kctx) (toNat_lt2 cclosed) (CP.toN_lt cp) (toNat_lt2 cref) h_ntx (toNat_lt2 clean) (toNat_lt2 born) (toNat_lt2 raced) (toNat_lt2 stale) (toNat_lt2 reused) (toNat_lt2 overflow) h_panic]; cases born <;> rfl
+  · rw [fld22 (has.toNat) (rp.toN) (wp.toN) (closed.toNat) cause (txNil.toNat) (txClosed.toNat) (netClosed.toNat) errCh pend infl (tainted.toNat) (kp.toN) kres retry (kctx.toNat) (cclosed.toNat) (cp.toN) (cref.toNat) ntx (clean.toNat) (born.toNat) (raced.toNat) (stale.toNat) (reused.toNat) (overflow.toNat) panic
+      (toNat_lt2 has) (RP.toN_lt rp) (WP.toN_lt wp) (toNat_lt2 closed) h_cause (toNat_lt2 txNil) (toNat_lt2 txClosed) (toNat_lt2 netClosed) h_errCh h_pend h_infl (toNat_lt2 tainted) (KP.toN_lt kp) h_kres h_retry (toNat_lt2 kctx) (toNat_lt2 cclosed) (CP.toN_lt cp) (toNat_lt2 cref) h_ntx (toNat_lt2 clean) (toNat_lt2 born) (toNat_lt2 raced) (toNat_lt2 stale) (toNat_lt2 reused) (toNat_lt2 overflow) h_panic]; cases raced <;> rfl
+  · rw [fld23 (has.toNat) (rp.toN) (wp.toN) (closed.toNat) cause (txNil.toNat) (txClosed.toNat) (netClosed.toNat) errCh pend infl (tainted.toNat) (kp.toN) kres retry (kctx.toNat) (cclosed.toNat) (cp.toN) (cref.toNat) ntx (clean.toNat) (born.toNat) (raced.toNat) (stale.toNat) (reused.toNat) (overflow.toNat) panic
+      (toNat_lt2 has) (RP.toN_lt rp) (WP.toN_lt wp) (toNat_lt2 closed) h_cause (toNat_lt2 txNil) (toNat_lt2 txClosed) (toNat_lt2 netClosed) h_errCh h_pend h_infl (toNat_lt2 tainted) (KP.toN_lt kp) h_kres h_retry (toNat_lt2 kctx) (toNat_lt2 cclosed) (CP.toN_lt cp) (toNat_lt2 cref) h_ntx (toNat_lt2 clean) (toNat_lt2 born) (toNat_lt2 raced) (toNat_lt2 stale) (toNat_lt2 reused) (toNat_lt2 overflow) h_panic]; cases stale <;> rfl
+  · rw [fld24 (has.toNat) (rp.toN) (wp.toN) (closed.toNat) cause (txNil.toNat) (txClosed.toNat) (netClosed.toNat) errCh pend infl (tainted.toNat) (kp.toN) kres retry (kctx.toNat) (cclosed.toNat) (cp.toN) (cref.toNat) ntx (clean.toNat) (born.toNat) (raced.toNat) (stale.toNat) (reused.toNat) (overflow.toNat) panic
+      (toNat_lt2 has) (RP.toN_lt rp) (WP.toN_lt wp) (toNat_lt2 closed) h_cause (toNat_lt2 txNil) (toNat_lt2 txClosed) (toNat_lt2 netClosed) h_errCh h_pend h_infl (toNat_lt2 tainted) (KP.toN_lt kp) h_kres h_retry (toNat_lt2 kctx) (toNat_lt2 cclosed) (CP.toN_lt cp) (toNat_lt2 cref) h_ntx (toNat_lt2 clean) (toNat_lt2 born) (toNat_lt2 raced) (toNat_lt2 stale) (toNat_lt2 reused) (toNat_lt2 overflow) h_panic]; cases reused <;> rfl
+  · rw [fld25 (has.toNat) (rp.toN) (wp.toN) (closed.toNat) cause (txNil.toNat) (txClosed.toNat) (netClosed.toNat) errCh pend infl (tainted.toNat) (kp.toN) kres retry (kctx.toNat) (cclosed.toNat) (cp.toN) (cref.toNat) ntx (clean.toNat) (born.toNat) (raced.toNat) (stale.toNat) (reused.toNat) (overflow.toNat) panic
+      (toNat_lt2 has) (RP.toN_lt rp) (WP.toN_lt wp) (toNat_lt2 closed) h_cause (toNat_lt2 txNil) (toNat_lt2 txClosed) (toNat_lt2 netClosed) h_errCh h_pend h_infl (toNat_lt2 tainted) (KP.toN_lt kp) h_kres h_retry (toNat_lt2 kctx) (toNat_lt2 cclosed) (CP.toN_lt cp) (toNat_lt2 cref) h_ntx (toNat_lt2 clean) (toNat_lt2 born) (toNat_lt2 raced) (toNat_lt2 stale) (toNat_lt2 reused) (toNat_lt2 overflow) h_panic]; cases overflow <;> rfl
+  · exact fld26 (has.toNat) (rp.toN) (wp.toN) (closed.toNat) cause (txNil.toNat) (txClosed.toNat) (netClosed.toNat) errCh pend infl (tainted.toNat) (kp.toN) kres retry (kctx.toNat) (cclosed.toNat) (cp.toN) (cref.toNat) ntx (clean.toNat) (born.toNat) (raced.toNat) (stale.toNat) (reused.toNat) (overflow.toNat) panic
+      (toNat_lt2 has) (RP.toN_lt rp) (WP.toN_lt wp) (toNat_lt2 closed) h_cause (toNat_lt2 txNil) (toNat_lt2 txClosed) (toNat_lt2 netClosed) h_errCh h_pend h_infl (toNat_lt2 tainted) (KP.toN_lt kp) h_kres h_retry (toNat_lt2 kctx) (toNat_lt2 cclosed) (CP.toN_lt cp) (toNat_lt2 cref) h_ntx (toNat_lt2 clean) (toNat_lt2 born) (toNat_lt2 raced) (toNat_lt2 stale) (toNat_lt2 reused) (toNat_lt2 overflow) h_panic
+
+def codec : Codec St := { code := code, decode := decode, wf := wf, roundtrip := roundtrip }
 
 end Kmip.CliConn
